@@ -157,17 +157,22 @@ Qed.
 
 (* what delete_list does to one table *)
 Definition freed_from (c : Z) (y y' : tinfo) : Prop :=
-  tblocks y' = tblocks y /\ tsup y' = tsup y /\ (tst y' = TFreed \/ (tst y' = TDead /\ exists u, tst y = TSpec u) \/ tst y' = tst y /\ tst y = TDead) /\
+  tblocks y' = tblocks y /\ tsup y' = tsup y /\ (tst y' = TFreed \/ tst y' = TDead) /\
+  ((forall u, tst y <> TSpec u) -> tst y' = TFreed) /\
   (tfreed y' = tfreed y \/ (tfreed y = None /\ tfreed y' = Some c)).
 Lemma freed_from_one : forall c y k, freed_from c y (if Nat.eqb k 0 then set_tst y TFreed else free_tinfo y c).
 Proof.
   intros. unfold freed_from. destruct (Nat.eqb k 0); cbn; repeat split; auto.
-  destruct (tfreed y); auto.
+  - destruct (tst y); auto.
+  - intro H. destruct (tst y); auto. exfalso. eapply H; reflexivity.
+  - destruct (tfreed y); auto.
 Qed.
 Lemma freed_from_trans : forall c y y' y'', freed_from c y y' -> freed_from c y' y'' -> freed_from c y y''.
 Proof.
-  unfold freed_from. intros c y y' y'' (A1 & A2 & A3 & A4) (B1 & B2 & B3 & B4).
-  repeat split; try congruence. destruct A4 as [A4|[A4 A5]], B4 as [B4|[B4 B5]]; try (left; congruence); try (right; split; congruence).
+  unfold freed_from. intros c y y' y'' (A1 & A2 & A3 & A3' & A4) (B1 & B2 & B3 & B3' & B4).
+  repeat split; try congruence.
+  - intro H. apply B3'. intros u Hu. rewrite (A3' H) in Hu. discriminate.
+  - destruct A4 as [A4|[A4 A5]], B4 as [B4|[B4 B5]]; try (left; congruence); try (right; split; congruence).
 Qed.
 Lemma nth_error_free_tables : forall ks tb c m,
   match nth_error tb m with
@@ -365,6 +370,17 @@ Proof.
   - intros k [].
 Qed.
 
+(* how the ghost times / status of a table evolve in one step of thread t (read backwards from s') *)
+Definition times_ext (s s' : st) (t : nat) : Prop :=
+  forall k ti', T s' k = Some ti' ->
+    (T s k = None /\ tsup ti' = None /\ tfreed ti' = None) \/
+    exists ti, T s k = Some ti /\
+      (tsup ti' = tsup ti \/ (tsup ti = None /\ tst ti = TCur /\ tsup ti' = Some (clock s))) /\
+      (tfreed ti' = tfreed ti \/
+       (tfreed ti = None /\ tfreed ti' = Some (clock s) /\
+        ((tst ti = TListed /\ In k (hnodes s) /\ ~ In k (hnodes s')) \/ (tst ti = TSpec t /\ tst ti' = TDead)))) /\
+      (tst ti = TDead -> tst ti' = TDead).
+
 (* what a step of thread t may do to the table store without disturbing the other threads *)
 Definition tables_ext (s s' : st) (t : nat) : Prop :=
   forall k ti, T s k = Some ti -> exists ti', T s' k = Some ti' /\
@@ -392,7 +408,7 @@ Qed.
 (* generic preservation: the stepping thread t ends in th', the store evolves by tables_ext *)
 Lemma inv1_frame : forall s s' t th th',
   Inv1 s -> nth_error (threads s) t = Some th -> threads s' = set_nth t th' (threads s) ->
-  tables_ext s s' t ->
+  tables_ext s s' t -> times_ext s s' t ->
   (exists ti, T s' (cur s') = Some ti /\ tst ti = TCur /\ tsup ti = None /\ tfreed ti = None) ->
   (forall k ti, T s' k = Some ti -> tst ti = TCur -> k = cur s') ->
   prefix (live s) (live s') ->
@@ -401,9 +417,10 @@ Lemma inv1_frame : forall s s' t th th',
   pc_ok s' t (tpc th') ->
   (forall k taken, snap th' = Some (k, taken) -> exists ti, T s' k = Some ti /\ published ti) ->
   (forall k, In k (hnodes s') -> exists ti, T s' k = Some ti /\ tst ti = TListed) ->
-  Inv1 s'.
+  Inv1 s' /\ prefix (live s) (live s') /\ tables_ext s s' t /\ times_ext s s' t.
 Proof.
-  intros s s' t th th' I Hth Hthr Hext Hcur Huniq Hlive Hnew Hpc Hsnap Hlist.
+  intros s s' t th th' I Hth Hthr Hext Htime Hcur Huniq Hlive Hnew Hpc Hsnap Hlist.
+  split; [|auto].
   constructor; auto.
   - intros k ti' Hk Hp. destruct (Hnew _ _ Hk Hp) as [(ti & Hk0 & Hp0)|]; [|assumption].
     destruct (Hext _ _ Hk0) as (ti'' & Hk' & Hpub & _). unfold T in *. rewrite Hk in Hk'. inversion Hk'; subst ti''.
@@ -428,13 +445,14 @@ Lemma inv1_local : forall s s' t th th',
   tables s' = tables s -> cur s' = cur s -> hnodes s' = hnodes s ->
   pc_ok s t (tpc th') ->
   (forall k taken, snap th' = Some (k, taken) -> exists ti, T s k = Some ti /\ published ti) ->
-  Inv1 s'.
+  Inv1 s' /\ prefix (live s) (live s') /\ tables_ext s s' t /\ times_ext s s' t.
 Proof.
   intros s s' t th th' I Hth Hthr Et Ec Eh Hpc Hsnap.
   assert (ET : forall k, T s' k = T s k) by (intro; unfold T; rewrite Et; reflexivity).
   assert (EL : live s' = live s) by (unfold live, table; rewrite Et, Ec; reflexivity).
   eapply inv1_frame; eauto.
   - apply tables_ext_refl; assumption.
+  - intros k ti' H'. rewrite ET in H'. right. exists ti'. auto.
   - rewrite Ec, ET. apply (i1_cur s I).
   - intros k ti. rewrite ET, Ec. apply (i1_uniq s I).
   - rewrite EL. apply prefix_refl.
@@ -442,4 +460,1055 @@ Proof.
   - destruct (tpc th'); cbn in *; auto; repeat setoid_rewrite ET; assumption.
   - intros k taken H. rewrite ET. eauto.
   - intros k. rewrite Eh, ET. apply (i1_list s I).
+Qed.
+
+(* projections of `prepare` *)
+Lemma prepare_tables : forall s t th bt nt fresh e,
+  tables (prepare s t th bt nt fresh e) =
+  let cont := fill_contents s bt (tsize (table s bt)) e in
+  if fresh then tables s ++ [{| tblocks := cont; tst := TSpec t; tsup := None; tfreed := None; tfrees := 0 |}]
+  else set_nth nt (set_blocks (table s nt) cont) (tables s).
+Proof. intros. unfold prepare. destruct (is_freed (table s bt)), fresh; reflexivity. Qed.
+Lemma prepare_threads : forall s t th bt nt fresh e,
+  threads (prepare s t th bt nt fresh e) = set_nth t (goto th (SlowCas bt nt (tsize (table s bt)) e)) (threads s).
+Proof. intros. unfold prepare. destruct (is_freed (table s bt)); reflexivity. Qed.
+Lemma prepare_cur : forall s t th bt nt fresh e, cur (prepare s t th bt nt fresh e) = cur s.
+Proof. intros. unfold prepare. destruct (is_freed (table s bt)); reflexivity. Qed.
+Lemma prepare_hnodes : forall s t th bt nt fresh e, hnodes (prepare s t th bt nt fresh e) = hnodes s.
+Proof. intros. unfold prepare. destruct (is_freed (table s bt)); reflexivity. Qed.
+Lemma prepare_bits : forall s t th bt nt fresh e, bits (prepare s t th bt nt fresh e) = bits s.
+Proof. intros. unfold prepare. destruct (is_freed (table s bt)); reflexivity. Qed.
+
+Lemma fill_contents_ext : forall s bt tb e, T s bt = Some tb ->
+  fill_contents s bt (tsize tb) e = tblocks tb ++ seq (length (bctor s)) (Z.to_nat (e - tsize tb)).
+Proof.
+  intros s bt tb e H. unfold fill_contents. rewrite (table_nth _ _ _ H).
+  destruct (cv_gen_ranges (tsize tb) e) as (-> & -> & -> & _). unfold tsize. rewrite Nat2Z.id, firstn_all. reflexivity.
+Qed.
+
+Lemma live_eq : forall s s' ti, T s (cur s) = Some ti -> T s' (cur s') = Some ti -> live s' = live s.
+Proof. intros s s' ti H H'. unfold live. rewrite (table_nth _ _ _ H), (table_nth _ _ _ H'). reflexivity. Qed.
+
+Lemma snap_ext : forall s s' t k, tables_ext s s' t -> (exists ti, T s k = Some ti /\ published ti) ->
+  exists ti, T s' k = Some ti /\ published ti.
+Proof. intros s s' t k Hext (ti & H & Hp). destruct (Hext _ _ H) as (ti' & H' & Hpub & _). exists ti'. split; auto. apply Hpub; auto. Qed.
+
+Lemma published_cur : forall ti, tst ti = TCur -> published ti.
+Proof. intros ti H. unfold published. rewrite H. exact I. Qed.
+
+Lemma inv1_step : forall s t th s', Inv1 s -> nth_error (threads s) t = Some th -> Step s t th s' ->
+  Inv1 s' /\ prefix (live s) (live s') /\ tables_ext s s' t /\ times_ext s s' t.
+Proof.
+  intros s t th s' IV Hth HS.
+  pose proof (i1_pc s IV _ _ Hth) as Hpc0.
+  assert (Hsn0 : forall k taken, snap th = Some (k, taken) -> exists ti, T s k = Some ti /\ published ti)
+    by (intros; eapply (i1_snap s IV); eauto).
+  destruct (i1_cur s IV) as (tc & Hc & Hcst & Hcsup & Hcfr).
+  destruct HS.
+  - match goal with |- Inv1 (upd_thread _ _ ?x) /\ _ => eapply inv1_local with (th' := x); [exact IV|exact Hth|reflexivity|reflexivity|reflexivity|reflexivity| |] end; [exact Logic.I|exact Hsn0].
+  - match goal with |- Inv1 (upd_thread _ _ ?x) /\ _ => eapply inv1_local with (th' := x); [exact IV|exact Hth|reflexivity|reflexivity|reflexivity|reflexivity| |] end; [exact Logic.I|exact Hsn0].
+  - match goal with |- Inv1 (upd_thread _ _ ?x) /\ _ => eapply inv1_local with (th' := x); [exact IV|exact Hth|reflexivity|reflexivity|reflexivity|reflexivity| |] end; [exact Logic.I|exact Hsn0].
+  - match goal with |- Inv1 (upd_thread _ _ ?x) /\ _ => eapply inv1_local with (th' := x); [exact IV|exact Hth|reflexivity|reflexivity|reflexivity|reflexivity| |] end; [exact Logic.I|].
+    cbn. intros k taken E. inversion E; subst. exists tc. split; [assumption|apply published_cur; assumption].
+  - match goal with |- Inv1 (upd_thread _ _ ?x) /\ _ => eapply inv1_local with (th' := x); [exact IV|exact Hth|reflexivity|reflexivity|reflexivity|reflexivity| |] end; [exact Logic.I|exact Hsn0].
+  - match goal with |- Inv1 (upd_thread _ _ ?x) /\ _ => eapply inv1_local with (th' := x); [exact IV|exact Hth|reflexivity|reflexivity|reflexivity|reflexivity| |] end; [exact Logic.I|exact Hsn0].
+  - match goal with |- Inv1 (upd_thread _ _ ?x) /\ _ => eapply inv1_local with (th' := x); [exact IV|exact Hth|reflexivity|reflexivity|reflexivity|reflexivity| |] end; [exact Logic.I|exact Hsn0].
+  - match goal with |- Inv1 (upd_thread _ _ ?x) /\ _ => eapply inv1_local with (th' := x); [exact IV|exact Hth|reflexivity|reflexivity|reflexivity|reflexivity| |] end; [exact Logic.I|exact Hsn0].
+  - match goal with |- Inv1 (upd_thread _ _ ?x) /\ _ => eapply inv1_local with (th' := x); [exact IV|exact Hth|reflexivity|reflexivity|reflexivity|reflexivity| |] end; [exact Logic.I|exact Hsn0].
+  - match goal with |- Inv1 (upd_thread _ _ ?x) /\ _ => eapply inv1_local with (th' := x); [exact IV|exact Hth|reflexivity|reflexivity|reflexivity|reflexivity| |] end; [exact Logic.I|exact Hsn0].
+  - (* prepare, fresh table *)
+    set (s' := prepare s t th (cur s) (length (tables s)) true e).
+    assert (ET : forall k y, T s k = Some y -> T s' k = Some y).
+    { intros k y Hk. unfold T, s'. rewrite prepare_tables. cbv zeta. rewrite nth_error_app1; [assumption|].
+      apply nth_error_Some. unfold T in Hk. congruence. }
+    assert (ETb : forall k y, T s' k = Some y -> T s k = Some y \/ (k = length (tables s) /\ tst y = TSpec t /\ tsup y = None /\ tfreed y = None)).
+    { intros k y Hk. unfold T, s' in Hk. rewrite prepare_tables in Hk. cbv zeta in Hk.
+      destruct (Nat.lt_ge_cases k (length (tables s))) as [Hlt|Hge].
+      - rewrite nth_error_app1 in Hk by assumption. left. assumption.
+      - rewrite nth_error_app2 in Hk by assumption. destruct (k - length (tables s))%nat eqn:Ek.
+        + cbn in Hk. inversion Hk; subst. right. repeat split; try reflexivity. lia.
+        + destruct n; discriminate. }
+    assert (Hc' : T s' (cur s') = Some tc) by (unfold s' at 2; rewrite prepare_cur; apply ET; assumption).
+    assert (Htime : times_ext s s' t).
+    { intros k y' Hk'. destruct (ETb _ _ Hk') as [Hk0|(-> & _ & Hs1 & Hs2)].
+      - right. exists y'. auto.
+      - left. split; [|auto]. apply nth_error_None. lia. }
+    eapply (inv1_frame s) with (th' := goto th (SlowCas (cur s) (length (tables s)) (tsize (table s (cur s))) e)); [exact IV|exact Hth| | |exact Htime| | | | | | | ].
+    + apply prepare_threads.
+    + intros k y Hk. exists y. split; [apply ET; assumption|]. split; auto.
+    + exists tc. auto.
+    + intros k y Hk Hy. destruct (ETb _ _ Hk) as [Hk0|(_ & Hs & _)]; [|congruence].
+      unfold s'. rewrite prepare_cur. eapply (i1_uniq s IV); eauto.
+    + rewrite (live_eq s s' tc) by assumption. apply prefix_refl.
+    + intros k y Hk Hp. destruct (ETb _ _ Hk) as [Hk0|(_ & Hs & _)]; [left; eauto|]. unfold published in Hp. rewrite Hs in Hp. contradiction.
+    + cbn. rewrite (table_nth _ _ _ Hc).
+      exists tc, {| tblocks := fill_contents s (cur s) (tsize tc) e; tst := TSpec t; tsup := None; tfreed := None; tfrees := 0 |}.
+      eexists. repeat split.
+      * apply ET; assumption.
+      * unfold T, s'. rewrite prepare_tables. cbv zeta. rewrite nth_error_app2 by lia. rewrite Nat.sub_diag.
+        rewrite (table_nth _ _ _ Hc). reflexivity.
+      * apply published_cur; assumption.
+      * cbn. apply fill_contents_ext. assumption.
+      * unfold T in Hc. intro E0. apply length_zero_iff_nil in E0. rewrite E0 in Hc. destruct (cur s); discriminate.
+    + cbn. intros k taken Hs. destruct (Hsn0 _ _ Hs) as (y & Hy & Hp). exists y. split; [apply ET; assumption|assumption].
+    + intros k Hk. unfold s' in Hk. rewrite prepare_hnodes in Hk. destruct (i1_list s IV _ Hk) as (y & Hy & Hst). exists y. split; auto.
+  - (* CAS on _block_table succeeds *)
+    rewrite H in Hpc0. cbn in Hpc0. destruct Hpc0 as (tb & tn & spec & Hb & Hn & Hpb & Hst & Hbl & Hbn & Hsup & Hfr & Hnz).
+    subst bt. rewrite Hc in Hb. inversion Hb; subst tb. clear Hb.
+    assert (Hne : nt <> cur s) by (intro E; subst nt; rewrite Hc in Hn; inversion Hn; subst; congruence).
+    rewrite (table_nth _ _ _ Hn), (table_nth s _ _ Hc).
+    match goal with |- Inv1 ?x /\ _ => set (s' := x) end.
+    assert (ET : forall k, T s' k = match T s k with None => None | Some y =>
+               Some (if Nat.eqb nt k then set_tst tn TCur else if Nat.eqb (cur s) k then supersede tc t (clock s) else y) end).
+    { intro k. unfold T, s'. cbn. rewrite !nth_error_set_nth. destruct (nth_error (tables s) k); reflexivity. }
+    assert (Hn' : T s' nt = Some (set_tst tn TCur)) by (rewrite ET, Hn, Nat.eqb_refl; reflexivity).
+    assert (Hext : tables_ext s s' t).
+    { intros k y Hk. rewrite ET, Hk. eexists; split; [reflexivity|].
+      destruct (Nat.eqb_spec nt k) as [<-|N1].
+      - rewrite Hn in Hk. inversion Hk; subst y. split.
+        + intro Hp. unfold published in Hp. rewrite Hst in Hp. contradiction.
+        + intros u Hu [E|E]; rewrite Hst in E; congruence.
+      - destruct (Nat.eqb_spec (cur s) k) as [<-|N2].
+        + rewrite Hc in Hk. inversion Hk; subst y. split.
+          * intros _. split; [exact I|reflexivity].
+          * intros u Hu [E|E]; rewrite Hcst in E; congruence.
+        + split; auto. }
+    assert (Htime : times_ext s s' t).
+    { intros k y' Hk'. right. rewrite ET in Hk'. destruct (T s k) as [y|] eqn:Hk; [|discriminate]. inversion Hk'; subst y'; clear Hk'.
+      exists y. split; [reflexivity|].
+      destruct (Nat.eqb_spec nt k) as [<-|N1].
+      - rewrite Hn in Hk. inversion Hk; subst y. cbn. repeat split; auto. intro E; congruence.
+      - destruct (Nat.eqb_spec (cur s) k) as [<-|N2]; [|auto].
+        rewrite Hc in Hk. inversion Hk; subst y. cbn. split; [right; auto|]. split; [left; auto|]. intro E; congruence. }
+    eapply (inv1_frame s) with (th' := goto th (RetLoad (cur s) nt)); [exact IV|exact Hth|reflexivity|exact Hext|exact Htime| | | | | | | ].
+    + exists (set_tst tn TCur). cbn. repeat split; auto.
+    + intros k y Hk Hy. rewrite ET in Hk. destruct (T s k) as [y0|] eqn:Ek; [|discriminate]. inversion Hk; subst y; clear Hk.
+      destruct (Nat.eqb_spec nt k) as [<-|N1]; [reflexivity|].
+      destruct (Nat.eqb_spec (cur s) k) as [<-|N2]; [cbn in Hy; discriminate|].
+      exfalso. apply N2. symmetry. eapply (i1_uniq s IV); eauto.
+    + unfold live at 2. cbn [cur s' upd_thread with_mem]. rewrite (table_nth _ _ _ Hn'). cbn.
+      unfold live. rewrite (table_nth _ _ _ Hc). exists spec. assumption.
+    + intros k y Hk Hp. rewrite ET in Hk. destruct (T s k) as [y0|] eqn:Ek; [|discriminate]. inversion Hk; subst y; clear Hk.
+      destruct (Nat.eqb_spec nt k) as [<-|N1].
+      * right. unfold live. cbn [cur s' upd_thread with_mem]. rewrite (table_nth _ _ _ Hn'). apply prefix_refl.
+      * left. exists y0. split; [reflexivity|]. destruct (Nat.eqb_spec (cur s) k) as [<-|N2]; [|assumption].
+        rewrite Hc in Ek. inversion Ek; subst. apply published_cur; assumption.
+    + cbn. exists (supersede tc t (clock s)), (set_tst tn TCur). repeat split; auto.
+      rewrite ET, Hc. destruct (Nat.eqb_spec nt (cur s)); [contradiction|]. rewrite Nat.eqb_refl. reflexivity.
+    + cbn. intros k taken Hs. eapply snap_ext; eauto.
+    + intros k Hk. cbn in Hk. destruct (i1_list s IV _ Hk) as (y & Hy & Hyst). exists y. split; [|assumption].
+      rewrite ET, Hy. destruct (Nat.eqb_spec nt k) as [<-|N1]; [congruence|].
+      destruct (Nat.eqb_spec (cur s) k) as [<-|N2]; [congruence|reflexivity].
+  - (* CAS lost, winner's table is large enough: delete the speculative table *)
+    rewrite H in Hpc0. cbn in Hpc0. destruct Hpc0 as (tb & tn & spec & Hb & Hn & Hpb & Hst & Hbl & Hbn & Hsup & Hfr & Hnz).
+    subst s1 s2. cbn [cur tables with_mem].
+    match goal with |- Inv1 ?x /\ _ => set (s' := x) end.
+    assert (ET : forall k, T s' k = match T s k with None => None | Some y =>
+               Some (if Nat.eqb nt k then free_tinfo y (clock s) else y) end).
+    { intro k. unfold T, s'. cbn. rewrite nth_error_free_table. destruct (nth_error (tables s) k); [|reflexivity].
+      destruct (Nat.eqb_spec nt k); [|reflexivity]. destruct (Nat.eqb_spec nt 0); [contradiction|reflexivity]. }
+    assert (Hne : nt <> cur s) by (intro E; subst nt; congruence).
+    assert (Hc' : T s' (cur s') = Some tc).
+    { replace (cur s') with (cur s) by reflexivity. rewrite ET, Hc. destruct (Nat.eqb_spec nt (cur s)); [contradiction|reflexivity]. }
+    assert (Hext : tables_ext s s' t).
+    { intros k y Hk. rewrite ET, Hk. eexists; split; [reflexivity|]. destruct (Nat.eqb_spec nt k) as [<-|N1]; [|auto].
+      rewrite Hn in Hk. inversion Hk; subst y. split.
+      - intro Hp. unfold published in Hp. rewrite Hst in Hp. contradiction.
+      - intros u Hu [E|E]; rewrite Hst in E; congruence. }
+    assert (Htime : times_ext s s' t).
+    { intros k y' Hk'. right. rewrite ET in Hk'. destruct (T s k) as [y|] eqn:Hk; [|discriminate]. inversion Hk'; subst y'; clear Hk'.
+      exists y. split; [reflexivity|].
+      destruct (Nat.eqb_spec nt k) as [<-|N1]; [|auto].
+      rewrite Hn in Hk. inversion Hk; subst y. cbn. rewrite Hfr, Hst. split; [left; auto|]. split; [right; auto|]. intro E; discriminate. }
+    eapply (inv1_frame s) with (th' := finish_op th _); [exact IV|exact Hth| |exact Hext|exact Htime| | | | | | | ].
+    + reflexivity.
+    + exists tc. auto.
+    + intros k y Hk Hy. rewrite ET in Hk. destruct (T s k) as [y0|] eqn:Ek; [|discriminate]. inversion Hk; subst y; clear Hk.
+      destruct (Nat.eqb_spec nt k) as [<-|N1].
+      * rewrite Hn in Ek. inversion Ek; subst y0. cbn in Hy. rewrite Hst in Hy. discriminate.
+      * change (cur s') with (cur s). eapply (i1_uniq s IV); eauto.
+    + rewrite (live_eq s s' tc) by assumption. apply prefix_refl.
+    + intros k y Hk Hp. rewrite ET in Hk. destruct (T s k) as [y0|] eqn:Ek; [|discriminate]. inversion Hk; subst y; clear Hk.
+      destruct (Nat.eqb_spec nt k) as [<-|N1].
+      * rewrite Hn in Ek. inversion Ek; subst y0. unfold published in Hp. cbn in Hp. rewrite Hst in Hp. contradiction.
+      * left. eauto.
+    + exact I.
+    + cbn. intros k taken Hs. eapply snap_ext; eauto.
+    + intros k Hk. cbn in Hk. destruct (i1_list s IV _ Hk) as (y & Hy & Hyst). exists y. split; [|assumption].
+      rewrite ET, Hy. destruct (Nat.eqb_spec nt k) as [<-|N1]; [congruence|reflexivity].
+  - (* CAS lost, refill the speculative table from the winner's *)
+    rewrite H in Hpc0. cbn in Hpc0. destruct Hpc0 as (tb & tn & spec & Hb & Hn & Hpb & Hst & Hbl & Hbn & Hsup & Hfr & Hnz).
+    assert (Hne : nt <> cur s) by (intro E; subst nt; congruence).
+    set (s' := prepare s1 t th (cur s) nt false e).
+    assert (Etab : table s1 = table s) by reflexivity.
+    assert (ET : forall k, T s' k = match T s k with None => None | Some y =>
+               Some (if Nat.eqb nt k then set_blocks tn (fill_contents s1 (cur s) (tsize tc) e) else y) end).
+    { intro k. unfold T, s'. rewrite prepare_tables. cbv zeta. rewrite nth_error_set_nth. rewrite Etab.
+      rewrite (table_nth _ _ _ Hn), (table_nth _ _ _ Hc). reflexivity. }
+    assert (Hc' : T s' (cur s') = Some tc).
+    { replace (cur s') with (cur s) by (unfold s'; rewrite prepare_cur; reflexivity). rewrite ET, Hc. destruct (Nat.eqb_spec nt (cur s)); [contradiction|reflexivity]. }
+    assert (Hext : tables_ext s s' t).
+    { intros k y Hk. rewrite ET, Hk. eexists; split; [reflexivity|]. destruct (Nat.eqb_spec nt k) as [<-|N1]; [|auto].
+      rewrite Hn in Hk. inversion Hk; subst y. split.
+      - intro Hp. unfold published in Hp. rewrite Hst in Hp. contradiction.
+      - intros u Hu [E|E]; rewrite Hst in E; congruence. }
+    assert (Htime : times_ext s s' t).
+    { intros k y' Hk'. right. rewrite ET in Hk'. destruct (T s k) as [y|] eqn:Hk; [|discriminate]. inversion Hk'; subst y'; clear Hk'.
+      exists y. split; [reflexivity|].
+      destruct (Nat.eqb_spec nt k) as [<-|N1]; [|auto]. rewrite Hn in Hk. inversion Hk; subst y. cbn. auto. }
+    eapply (inv1_frame s) with (th' := goto th (SlowCas (cur s) nt (tsize (table s (cur s))) e)); [exact IV|exact Hth| |exact Hext|exact Htime| | | | | | | ].
+    + unfold s'. rewrite prepare_threads. reflexivity.
+    + exists tc. auto.
+    + intros k y Hk Hy. unfold s'. rewrite prepare_cur. cbn.
+      rewrite ET in Hk. destruct (T s k) as [y0|] eqn:Ek; [|discriminate]. inversion Hk; subst y; clear Hk.
+      destruct (Nat.eqb_spec nt k) as [<-|N1].
+      * rewrite Hn in Ek. inversion Ek; subst y0. cbn in Hy. congruence.
+      * change (cur s') with (cur s). eapply (i1_uniq s IV); eauto.
+    + rewrite (live_eq s s' tc) by assumption. apply prefix_refl.
+    + intros k y Hk Hp. rewrite ET in Hk. destruct (T s k) as [y0|] eqn:Ek; [|discriminate]. inversion Hk; subst y; clear Hk.
+      destruct (Nat.eqb_spec nt k) as [<-|N1].
+      * rewrite Hn in Ek. inversion Ek; subst y0. unfold published in Hp. cbn in Hp. rewrite Hst in Hp. contradiction.
+      * left. eauto.
+    + cbn [pc_ok tpc goto]. rewrite (table_nth _ _ _ Hc). exists tc, (set_blocks tn (fill_contents s1 (cur s) (tsize tc) e)). eexists.
+      repeat split; auto.
+      * rewrite ET, Hc. destruct (Nat.eqb_spec nt (cur s)); [contradiction|reflexivity].
+      * rewrite ET, Hn, Nat.eqb_refl. reflexivity.
+      * apply published_cur; assumption.
+      * cbn. apply fill_contents_ext. exact Hc.
+    + cbn. intros k taken Hs. eapply snap_ext; eauto.
+    + intros k Hk. unfold s' in Hk. rewrite prepare_hnodes in Hk. cbn in Hk.
+      destruct (i1_list s IV _ Hk) as (y & Hy & Hyst). exists y. split; [|assumption].
+      rewrite ET, Hy. destruct (Nat.eqb_spec nt k) as [<-|N1]; [congruence|reflexivity].
+  - (* retire: head loaded *)
+    match goal with |- Inv1 (upd_thread _ _ ?x) /\ _ => eapply inv1_local with (th' := x); [exact IV|exact Hth|reflexivity|reflexivity|reflexivity|reflexivity| |] end; [|exact Hsn0].
+    rewrite H in Hpc0. cbn in *. destruct (expire _ _); exact Hpc0.
+  - (* retire, strong CAS wins: the whole old list is deleted *)
+    rewrite H in Hpc0. cbn in Hpc0. destruct Hpc0 as (to & tn & Ho & Host & Hn & Hpn).
+    subst s1 s2. cbn [cur tables with_mem with_head].
+    rewrite (table_nth _ _ _ Ho).
+    match goal with |- Inv1 ?x /\ _ => set (s' := x) end.
+    assert (Hold : ~ In old hn).
+    { intro Hi. rewrite <- H1 in Hi. destruct (i1_list s IV _ Hi) as (y & Hy & Hyst). congruence. }
+    assert (ET : forall k, match T s k with
+             | None => T s' k = None
+             | Some y => exists y', T s' k = Some y' /\
+                 ((~ In k hn /\ y' = if Nat.eqb old k then set_tst to TListed else y) \/
+                  (In k hn /\ k <> old /\ freed_from (clock s) y y')) end).
+    { intro k. unfold T, s'. cbn [tables upd_thread with_mem].
+      pose proof (nth_error_free_tables hn (set_nth old (set_tst to TListed) (tables s)) (clock s) k) as P.
+      rewrite nth_error_set_nth in P. destruct (nth_error (tables s) k) as [y|]; [|assumption].
+      destruct P as (y' & E & [[P1 P2]|[P1 P2]]); exists y'; (split; [assumption|]).
+      - left. auto.
+      - right. destruct (Nat.eqb_spec old k) as [<-|N]; [contradiction|]. auto. }
+    assert (Hlist : forall k, In k hn -> exists y, T s k = Some y /\ tst y = TListed) by (intros k Hk; apply (i1_list s IV); congruence).
+    assert (Hext : tables_ext s s' t).
+    { intros k y Hk. pose proof (ET k) as P. rewrite Hk in P. destruct P as (y' & E & P); exists y'; (split; [assumption|]); destruct P as [[P1 ->]|(P1 & P2 & P3)].
+      - destruct (Nat.eqb_spec old k) as [<-|N]; [|auto]. rewrite Ho in Hk. inversion Hk; subst y. split.
+        + intros _. split; [exact I|reflexivity].
+        + intros u Hu [E1|E1]; rewrite Host in E1; congruence.
+      - destruct (Hlist _ P1) as (y0 & Hy0 & Hst0). rewrite Hk in Hy0. inversion Hy0; subst y0.
+        destruct P3 as (B1 & B2 & B3 & B3' & B4). split.
+        + intros _. split; [|assumption]. unfold published. rewrite B3'; [exact I|]. intros u; congruence.
+        + intros u Hu [E1|E1]; congruence. }
+    assert (Htime : times_ext s s' t).
+    { intros k y' Hk'. right. pose proof (ET k) as P. destruct (T s k) as [y|] eqn:Hk; [|congruence].
+      destruct P as (y'' & E & P). rewrite Hk' in E. inversion E; subst y''; clear E. exists y. split; [reflexivity|].
+      destruct P as [[P1 ->]|(P1 & P2 & P3)].
+      - destruct (Nat.eqb_spec old k) as [<-|N]; [|auto]. rewrite Ho in Hk. inversion Hk; subst y. cbn. repeat split; auto. intro E; congruence.
+      - destruct (Hlist _ P1) as (y0 & Hy0 & Hst0). rewrite Hk in Hy0. inversion Hy0; subst y0.
+        destruct P3 as (B1 & B2 & B3 & B3' & B4). split; [left; assumption|]. split; [|intro E; congruence].
+        destruct B4 as [B4|[B4 B5]]; [left; assumption|]. right. repeat split; auto. left. repeat split; auto.
+        + rewrite H1. assumption.
+        + cbn. intros [E|[]]. apply P2. congruence. }
+    assert (Hnc : ~ In (cur s) hn) by (intro Hi; destruct (Hlist _ Hi) as (y & Hy & Hyst); congruence).
+    assert (Hoc : old <> cur s) by (intro E; subst old; congruence).
+    assert (Hc' : T s' (cur s') = Some tc).
+    { replace (cur s') with (cur s) by reflexivity. pose proof (ET (cur s)) as P. rewrite Hc in P. destruct P as (y' & E & [[P1 ->]|(P1 & _)]); [|contradiction].
+      destruct (Nat.eqb_spec old (cur s)); [contradiction|assumption]. }
+    eapply (inv1_frame s) with (th' := finish_op th _); [exact IV|exact Hth| |exact Hext|exact Htime| | | | | | | ].
+    + reflexivity.
+    + exists tc. auto.
+    + intros k y Hk Hy. pose proof (ET k) as P. destruct (T s k) as [y0|] eqn:Ek; [|congruence].
+      destruct P as (y' & E & [[P1 P2]|(P1 & P2 & P3)]); rewrite Hk in E; inversion E; subst y'; clear E.
+      * subst y. destruct (Nat.eqb_spec old k); [cbn in Hy; discriminate|]. change (cur s') with (cur s). eapply (i1_uniq s IV); eauto.
+      * destruct P3 as (_ & _ & [B|B] & _); congruence.
+    + rewrite (live_eq s s' tc) by assumption. apply prefix_refl.
+    + intros k y Hk Hp. left. pose proof (ET k) as P. destruct (T s k) as [y0|] eqn:Ek; [|congruence].
+      exists y0. split; [reflexivity|].
+      destruct P as (y' & E & [[P1 P2]|(P1 & P2 & P3)]).
+      * rewrite Hk in E. inversion E; subst y'. subst y. destruct (Nat.eqb_spec old k) as [<-|N]; [|assumption].
+        rewrite Ho in Ek. inversion Ek; subst. unfold published. rewrite Host. exact I.
+      * destruct (Hlist _ P1) as (y1 & Hy1 & Hst1). rewrite Ek in Hy1. inversion Hy1; subst. unfold published. rewrite Hst1. exact I.
+    + exact I.
+    + cbn. intros k taken Hs. eapply snap_ext; eauto.
+    + intros k Hk. cbn in Hk. destruct Hk as [<-|[]]. pose proof (ET old) as P. rewrite Ho in P.
+      destruct P as (y' & E & [[P1 ->]|(P1 & _)]); [|contradiction]. rewrite Nat.eqb_refl in E. eexists; split; [exact E|reflexivity].
+  - match goal with |- Inv1 (upd_thread _ _ ?x) /\ _ => eapply inv1_local with (th' := x); [exact IV|exact Hth|reflexivity|reflexivity|reflexivity|reflexivity| |] end; [|exact Hsn0]. rewrite H in Hpc0. exact Hpc0.
+  - (* retire, push wins *)
+    rewrite H in Hpc0. cbn in Hpc0. destruct Hpc0 as (to & tn & Ho & Host & Hn & Hpn).
+    subst s1 s2. cbn [cur tables with_mem with_head]. rewrite (table_nth _ _ _ Ho).
+    match goal with |- Inv1 ?x /\ _ => set (s' := x) end.
+    assert (ET : forall k, T s' k = match T s k with None => None | Some y =>
+               Some (if Nat.eqb old k then set_tst to TListed else y) end).
+    { intro k. unfold T, s'. cbn. apply nth_error_set_nth. }
+    assert (Hoc : old <> cur s) by (intro E; subst old; congruence).
+    assert (Hc' : T s' (cur s') = Some tc).
+    { replace (cur s') with (cur s) by reflexivity. rewrite ET, Hc. destruct (Nat.eqb_spec old (cur s)); [contradiction|reflexivity]. }
+    assert (Hext : tables_ext s s' t).
+    { intros k y Hk. rewrite ET, Hk. eexists; split; [reflexivity|]. destruct (Nat.eqb_spec old k) as [<-|N1]; [|auto].
+      rewrite Ho in Hk. inversion Hk; subst y. split.
+      - intros _. split; [exact I|reflexivity].
+      - intros u Hu [E|E]; rewrite Host in E; congruence. }
+    assert (Htime : times_ext s s' t).
+    { intros k y' Hk'. right. rewrite ET in Hk'. destruct (T s k) as [y|] eqn:Hk; [|discriminate]. inversion Hk'; subst y'; clear Hk'.
+      exists y. split; [reflexivity|].
+      destruct (Nat.eqb_spec old k) as [<-|N1]; [|auto]. rewrite Ho in Hk. inversion Hk; subst y. cbn. repeat split; auto. intro E; congruence. }
+    eapply (inv1_frame s) with (th' := finish_op th _); [exact IV|exact Hth| |exact Hext|exact Htime| | | | | | | ].
+    + reflexivity.
+    + exists tc. auto.
+    + intros k y Hk Hy. rewrite ET in Hk. destruct (T s k) as [y0|] eqn:Ek; [|discriminate]. inversion Hk; subst y; clear Hk.
+      destruct (Nat.eqb_spec old k) as [<-|N1]; [cbn in Hy; discriminate|]. change (cur s') with (cur s). eapply (i1_uniq s IV); eauto.
+    + rewrite (live_eq s s' tc) by assumption. apply prefix_refl.
+    + intros k y Hk Hp. left. rewrite ET in Hk. destruct (T s k) as [y0|] eqn:Ek; [|discriminate]. inversion Hk; subst y; clear Hk.
+      exists y0. split; [reflexivity|]. destruct (Nat.eqb_spec old k) as [<-|N1]; [|assumption].
+      rewrite Ho in Ek. inversion Ek; subst. unfold published. rewrite Host. exact I.
+    + exact I.
+    + cbn. intros k taken Hs. eapply snap_ext; eauto.
+    + intros k Hk. cbn in Hk. destruct Hk as [<-|Hk].
+      * rewrite ET, Ho, Nat.eqb_refl. eexists; split; reflexivity.
+      * rewrite <- H1 in Hk. destruct (i1_list s IV _ Hk) as (y & Hy & Hyst). exists y. split; [|assumption].
+        rewrite ET, Hy. destruct (Nat.eqb_spec old k) as [<-|N1]; [congruence|reflexivity].
+  - match goal with |- Inv1 (upd_thread _ _ ?x) /\ _ => eapply inv1_local with (th' := x); [exact IV|exact Hth|reflexivity|reflexivity|reflexivity|reflexivity| |] end; [|exact Hsn0]. rewrite H in Hpc0. exact Hpc0.
+  - (* gc wins: the whole list is deleted *)
+    subst s1 s2. cbn [cur tables with_mem with_head].
+    match goal with |- Inv1 ?x /\ _ => set (s' := x) end.
+    assert (ET : forall k, match T s k with
+             | None => T s' k = None
+             | Some y => exists y', T s' k = Some y' /\ ((~ In k hn /\ y' = y) \/ (In k hn /\ freed_from (clock s) y y')) end).
+    { intro k. unfold T, s'. cbn [tables upd_thread with_mem]. apply nth_error_free_tables. }
+    assert (Hlist : forall k, In k hn -> exists y, T s k = Some y /\ tst y = TListed) by (intros k Hk; apply (i1_list s IV); congruence).
+    assert (Hext : tables_ext s s' t).
+    { intros k y Hk. pose proof (ET k) as P. rewrite Hk in P. destruct P as (y' & E & P); exists y'; (split; [assumption|]); destruct P as [[P1 ->]|(P1 & P3)]; [auto|].
+      destruct (Hlist _ P1) as (y0 & Hy0 & Hst0). rewrite Hk in Hy0. inversion Hy0; subst y0.
+      destruct P3 as (B1 & B2 & B3 & B3' & B4). split.
+      - intros _. split; [|assumption]. unfold published. rewrite B3'; [exact I|]. intros u; congruence.
+      - intros u Hu [E1|E1]; congruence. }
+    assert (Htime : times_ext s s' t).
+    { intros k y' Hk'. right. pose proof (ET k) as P. destruct (T s k) as [y|] eqn:Hk; [|congruence].
+      destruct P as (y'' & E & P). rewrite Hk' in E. inversion E; subst y''; clear E. exists y. split; [reflexivity|].
+      destruct P as [[P1 ->]|(P1 & P3)]; [auto|].
+      destruct (Hlist _ P1) as (y0 & Hy0 & Hst0). rewrite Hk in Hy0. inversion Hy0; subst y0.
+      destruct P3 as (B1 & B2 & B3 & B3' & B4). split; [left; assumption|]. split; [|intro E; congruence].
+      destruct B4 as [B4|[B4 B5]]; [left; assumption|]. right. repeat split; auto. left. repeat split; auto.
+      rewrite H1. assumption. }
+    assert (Hnc : ~ In (cur s) hn) by (intro Hi; destruct (Hlist _ Hi) as (y & Hy & Hyst); congruence).
+    assert (Hc' : T s' (cur s') = Some tc).
+    { replace (cur s') with (cur s) by reflexivity. pose proof (ET (cur s)) as P. rewrite Hc in P. destruct P as (y' & E & [[P1 ->]|(P1 & _)]); [assumption|contradiction]. }
+    eapply (inv1_frame s) with (th' := finish_op th _); [exact IV|exact Hth| |exact Hext|exact Htime| | | | | | | ].
+    + reflexivity.
+    + exists tc. auto.
+    + intros k y Hk Hy. pose proof (ET k) as P. destruct (T s k) as [y0|] eqn:Ek; [|congruence].
+      destruct P as (y' & E & [[P1 P2]|(P1 & P3)]); rewrite Hk in E; inversion E; subst y'; clear E.
+      * subst y. change (cur s') with (cur s). eapply (i1_uniq s IV); eauto.
+      * destruct P3 as (_ & _ & [B|B] & _); congruence.
+    + rewrite (live_eq s s' tc) by assumption. apply prefix_refl.
+    + intros k y Hk Hp. left. pose proof (ET k) as P. destruct (T s k) as [y0|] eqn:Ek; [|congruence].
+      exists y0. split; [reflexivity|].
+      destruct P as (y' & E & [[P1 P2]|(P1 & P3)]).
+      * rewrite Hk in E. inversion E; subst y'. subst y. assumption.
+      * destruct (Hlist _ P1) as (y1 & Hy1 & Hst1). rewrite Ek in Hy1. inversion Hy1; subst. unfold published. rewrite Hst1. exact I.
+    + exact I.
+    + cbn. intros k taken Hs. eapply snap_ext; eauto.
+    + intros k [].
+  - match goal with |- Inv1 (upd_thread _ _ ?x) /\ _ => eapply inv1_local with (th' := x); [exact IV|exact Hth|reflexivity|reflexivity|reflexivity|reflexivity| |] end; [exact Logic.I|exact Hsn0].
+Qed.
+
+(* ======================================================================================== *)
+(* Invariant 2: clock stamps - a table is freed more than 64 s after it was superseded      *)
+(* ======================================================================================== *)
+Definition sup_le (s : st) (k : nat) (b : Z) : Prop := exists ti r, T s k = Some ti /\ tsup ti = Some r /\ r <= b.
+(* the stamp in head word hw is some unit U (mod 2^16), not in the future of clock c, and every table hanging
+   off the head was superseded in unit U or earlier *)
+Definition stamp_ok (s : st) (hw : Z) (hn : list nat) (c : Z) : Prop :=
+  exists U, ts_of_head hw = U mod 2 ^ 16 /\ 0 <= U <= current_unit c /\
+    forall k, In k hn -> exists ti r, T s k = Some ti /\ tsup ti = Some r /\ current_unit r <= U.
+
+Definition pc2_ok (s : st) (p : pc) : Prop :=
+  match p with
+  | RetLoad old nt => sup_le s old (clock s)
+  | RetStrong old nt hw hn neww c0 hclk =>
+      neww = make_head (node_addr old) (stamp_at c0) /\ 0 <= c0 /\ c0 <= hclk /\ hclk <= clock s /\ sup_le s old c0 /\
+      (forall k, In k hn -> sup_le s k hclk) /\
+      (stale s = false -> expire hw (stamp_at c0) = true /\ stamp_ok s hw hn c0)
+  | RetWeak old nt hw hn neww c0 hclk =>
+      neww = make_head (node_addr old) (stamp_at c0) /\ 0 <= c0 /\ c0 <= hclk /\ hclk <= clock s /\ sup_le s old c0 /\
+      (forall k, In k hn -> sup_le s k hclk)
+  | GcCas hw hn c1 =>
+      0 <= c1 /\ c1 <= clock s /\ (forall k, In k hn -> sup_le s k c1) /\
+      (stale s = false -> expire hw (stamp_at c1) = true /\ stamp_ok s hw hn c1)
+  | _ => True
+  end.
+
+Definition snap2_ok (s : st) (x : option (nat * Z)) : Prop :=
+  match x with
+  | None => True
+  | Some (k, taken) => taken <= clock s /\ exists ti, T s k = Some ti /\ forall r, tsup ti = Some r -> taken <= r
+  end.
+
+Record Inv2 (s : st) : Prop := {
+  i2_clock : 0 <= clock s;
+  i2_sup : forall k ti r, T s k = Some ti -> tsup ti = Some r -> r <= clock s;
+  i2_freed : forall k ti f, T s k = Some ti -> tfreed ti = Some f -> f <= clock s;
+  i2_unpub : forall k ti, T s k = Some ti -> ~ published ti -> tsup ti = None;
+  i2_dead : forall k ti f, T s k = Some ti -> tfreed ti = Some f -> tsup ti = None -> tst ti = TDead;
+  i2_list : forall k, In k (hnodes s) -> sup_le s k (clock s);
+  i2_stamp : stale s = false -> stamp_ok s (hword s) (hnodes s) (clock s);
+  i2_cool : stale s = false -> forall k ti r f, T s k = Some ti -> tsup ti = Some r -> tfreed ti = Some f -> f - r > 64;
+  i2_pc : forall t th, nth_error (threads s) t = Some th -> pc2_ok s (tpc th);
+  i2_snap : forall t th, nth_error (threads s) t = Some th -> snap2_ok s (snap th);
+  i2_uaf : stale s = false -> forall k l c, In (k, l, c) (uaf s) -> c - l > 64
+}.
+
+Lemma inv2_init : forall b t0 progs, 0 <= t0 -> Inv2 (init b t0 progs).
+Proof.
+  intros b t0 progs Ht. constructor; cbn; auto.
+  - intros [|[|k]] ti r H; try discriminate. inversion H; subst. discriminate.
+  - intros [|[|k]] ti f H; try discriminate. inversion H; subst. discriminate.
+  - intros [|[|k]] ti H; try discriminate. inversion H; subst. intro N. exfalso. apply N. exact I.
+  - intros [|[|k]] ti f H; try discriminate. inversion H; subst. discriminate.
+  - intros k [].
+  - intros _. exists 0. repeat split; try reflexivity; try lia. apply current_unit_nonneg; assumption. intros k [].
+  - intros _ [|[|k]] ti r f H; try discriminate. inversion H; subst. discriminate.
+  - intros t th H. apply nth_error_In in H. apply in_map_iff in H. destruct H as (p & <- & _). exact I.
+  - intros t th H. apply nth_error_In in H. apply in_map_iff in H. destruct H as (p & <- & _). exact I.
+  - intros _ k l c [].
+Qed.
+
+(* superseded tables keep their supersede time *)
+Lemma keep_sup : forall s s' t k ti r, tables_ext s s' t -> times_ext s s' t -> T s k = Some ti -> tsup ti = Some r ->
+  exists ti', T s' k = Some ti' /\ tsup ti' = Some r.
+Proof.
+  intros s s' t k ti r Hext Htime Hk Hr. destruct (Hext _ _ Hk) as (ti' & Hk' & _). exists ti'. split; [assumption|].
+  destruct (Htime _ _ Hk') as [(N & _)|(ti0 & Hk0 & [E|(E & _)] & _)]; congruence.
+Qed.
+Lemma sup_le_keep : forall s s' t k b b', tables_ext s s' t -> times_ext s s' t -> b <= b' -> sup_le s k b -> sup_le s' k b'.
+Proof.
+  intros s s' t k b b' Hext Htime Hb (ti & r & Hk & Hr & Hle). destruct (keep_sup _ _ _ _ _ _ Hext Htime Hk Hr) as (ti' & Hk' & Hr').
+  exists ti', r. repeat split; auto. lia.
+Qed.
+Lemma stamp_ok_keep : forall s s' t hw hn c, tables_ext s s' t -> times_ext s s' t -> stamp_ok s hw hn c -> stamp_ok s' hw hn c.
+Proof.
+  intros s s' t hw hn c Hext Htime (U & H1 & H2 & H3). exists U. repeat split; auto; try lia.
+  intros k Hk. destruct (H3 _ Hk) as (ti & r & Hti & Hr & Hle). destruct (keep_sup _ _ _ _ _ _ Hext Htime Hti Hr) as (ti' & Hk' & Hr').
+  exists ti', r. auto.
+Qed.
+Lemma stamp_ok_later : forall s hw hn c c', c <= c' -> stamp_ok s hw hn c -> stamp_ok s hw hn c'.
+Proof.
+  intros s hw hn c c' Hc (U & H1 & H2 & H3). exists U. repeat split; auto; try lia.
+  pose proof (current_unit_mono _ _ Hc). lia.
+Qed.
+
+Lemma pc2_ok_keep : forall s s' t p, tables_ext s s' t -> times_ext s s' t -> clock s <= clock s' ->
+  (stale s' = false -> stale s = false) -> pc2_ok s p -> pc2_ok s' p.
+Proof.
+  intros s s' t p Hext Htime Hc Hst H. destruct p; cbn in *; auto.
+  - apply (sup_le_keep s s' t old (clock s) (clock s') Hext Htime Hc H).
+  - destruct H as (A & B & C & D & E & F & G).
+    split; [assumption|]. split; [assumption|]. split; [assumption|]. split; [lia|].
+    split; [apply (sup_le_keep s s' t old c0 c0 Hext Htime (Z.le_refl _) E)|].
+    split; [intros k Hk; apply (sup_le_keep s s' t k hclk hclk Hext Htime (Z.le_refl _) (F k Hk))|].
+    intro Hs. destruct (G (Hst Hs)) as [G1 G2]. split; [assumption|]. eapply stamp_ok_keep; eauto.
+  - destruct H as (A & B & C & D & E & F).
+    split; [assumption|]. split; [assumption|]. split; [assumption|]. split; [lia|].
+    split; [apply (sup_le_keep s s' t old c0 c0 Hext Htime (Z.le_refl _) E)|].
+    intros k Hk; apply (sup_le_keep s s' t k hclk hclk Hext Htime (Z.le_refl _) (F k Hk)).
+  - destruct H as (A & B & C & G).
+    split; [assumption|]. split; [lia|].
+    split; [intros k Hk; apply (sup_le_keep s s' t k c1 c1 Hext Htime (Z.le_refl _) (C k Hk))|].
+    intro Hs. destruct (G (Hst Hs)) as [G1 G2]. split; [assumption|]. eapply stamp_ok_keep; eauto.
+Qed.
+
+Lemma snap2_ok_keep : forall s s' t x, Inv2 s -> tables_ext s s' t -> times_ext s s' t -> clock s <= clock s' ->
+  snap2_ok s x -> snap2_ok s' x.
+Proof.
+  intros s s' t [[k taken]|] I2 Hext Htime Hc H; cbn in *; auto. destruct H as (Hle & ti & Hk & Hr). split; [lia|].
+  destruct (Hext _ _ Hk) as (ti' & Hk' & _). exists ti'. split; [assumption|]. intros r Hr'.
+  destruct (Htime _ _ Hk') as [(N & _)|(ti0 & Hk0 & Hs & _)]; [congruence|].
+  rewrite Hk in Hk0. inversion Hk0; subst ti0.
+  destruct Hs as [E|(E1 & E2 & E3)]; [apply Hr; congruence | assert (r = clock s) by congruence; lia].
+Qed.
+
+(* the table-store part of Inv2 is preserved by any step described by tables_ext / times_ext, provided the frees of
+   listed tables (if any) respect the cooling period *)
+Lemma inv2_store : forall s s' t,
+  Inv1 s -> Inv2 s -> tables_ext s s' t -> times_ext s s' t -> clock s <= clock s' ->
+  (stale s' = false -> stale s = false) ->
+  (stale s' = false -> forall k ti r, In k (hnodes s) -> ~ In k (hnodes s') -> T s k = Some ti -> tsup ti = Some r -> clock s - r > 64) ->
+  (forall k ti r, T s' k = Some ti -> tsup ti = Some r -> r <= clock s') /\
+  (forall k ti f, T s' k = Some ti -> tfreed ti = Some f -> f <= clock s') /\
+  (forall k ti, T s' k = Some ti -> ~ published ti -> tsup ti = None) /\
+  (forall k ti f, T s' k = Some ti -> tfreed ti = Some f -> tsup ti = None -> tst ti = TDead) /\
+  (stale s' = false -> forall k ti r f, T s' k = Some ti -> tsup ti = Some r -> tfreed ti = Some f -> f - r > 64).
+Proof.
+  intros s s' t I1 I2 Hext Htime Hc Hst Hfree.
+  destruct (i1_cur s I1) as (tc & Hcur & Hcst & Hcsup & Hcfr).
+  split; [|split; [|split; [|split]]].
+  - intros k ti' r Hk' Hr. destruct (Htime _ _ Hk') as [(N & E & _)|(ti & Hk & Hs & _)]; [congruence|].
+    destruct Hs as [E|(E1 & E2 & E3)].
+    + rewrite E in Hr. pose proof (i2_sup s I2 k ti r Hk Hr). lia.
+    + assert (r = clock s) by congruence. lia.
+  - intros k ti' f Hk' Hf. destruct (Htime _ _ Hk') as [(N & _ & E)|(ti & Hk & _ & Hf' & _)]; [congruence|].
+    destruct Hf' as [E|(E1 & E2 & E3)].
+    + rewrite E in Hf. pose proof (i2_freed s I2 k ti f Hk Hf). lia.
+    + assert (f = clock s) by congruence. lia.
+  - intros k ti' Hk' Hp. destruct (Htime _ _ Hk') as [(N & E & _)|(ti & Hk & Hs & _)]; [assumption|].
+    destruct (Hext _ _ Hk) as (ti'' & Hk'' & Hpub & _). rewrite Hk' in Hk''. inversion Hk''; subst ti''.
+    destruct Hs as [E|(E1 & E2 & E3)].
+    + rewrite E. apply (i2_unpub s I2 k ti Hk). intro P. apply Hp. apply Hpub; assumption.
+    + exfalso. apply Hp. apply Hpub. apply published_cur; assumption.
+  - intros k ti' f Hk' Hf Hs. destruct (Htime _ _ Hk') as [(N & _ & E)|(ti & Hk & Hsup & Hfr & Hdead)]; [congruence|].
+    destruct Hfr as [E|(E1 & E2 & E3)].
+    + destruct Hsup as [E'|(E1 & E2 & E3)]; [|congruence]. apply Hdead. apply (i2_dead s I2 k ti f Hk); congruence.
+    + destruct E3 as [(E3 & E4 & _)|(_ & E3)]; [|assumption].
+      destruct (i2_list s I2 _ E4) as (ti0 & r & Hk0 & Hr & _). rewrite Hk in Hk0. inversion Hk0; subst ti0.
+      destruct Hsup as [E'|(E1' & _)]; congruence.
+  - intros Hs' k ti' r f Hk' Hr Hf.
+    destruct (Htime _ _ Hk') as [(N & E & _)|(ti & Hk & Hsup & Hfr & _)]; [congruence|].
+    destruct Hsup as [E|(E1 & E2 & E3)].
+    + destruct Hfr as [E'|(E1' & E2' & E3')].
+      * apply (i2_cool s I2 (Hst Hs') k ti r f Hk); congruence.
+      * assert (f = clock s) by congruence. subst f. destruct E3' as [(E3 & E4 & E5)|(E3 & _)].
+        -- apply (Hfree Hs' k ti r E4 E5 Hk). congruence.
+        -- exfalso. assert (tsup ti = None); [|congruence]. apply (i2_unpub s I2 k ti Hk). unfold published. rewrite E3. auto.
+    + (* superseded in this very step: it was the current table, which is never freed *)
+      exfalso. assert (k = cur s) by (eapply (i1_uniq s I1); eauto). subst k. rewrite Hcur in Hk. inversion Hk; subst ti.
+      destruct Hfr as [E'|(E1' & E2' & [(E3' & _)|(E3' & _)])]; congruence.
+Qed.
+
+Lemma inv2_gen : forall s s' t th th',
+  Inv1 s -> Inv2 s -> tables_ext s s' t -> times_ext s s' t ->
+  nth_error (threads s) t = Some th -> threads s' = set_nth t th' (threads s) ->
+  clock s <= clock s' -> (stale s' = false -> stale s = false) ->
+  (stale s' = false -> forall k ti r, In k (hnodes s) -> ~ In k (hnodes s') -> T s k = Some ti -> tsup ti = Some r -> clock s - r > 64) ->
+  (forall k, In k (hnodes s') -> sup_le s k (clock s)) ->
+  (stale s' = false -> stamp_ok s (hword s') (hnodes s') (clock s)) ->
+  (pc2_ok s (tpc th') \/ pc2_ok s' (tpc th')) ->
+  (snap2_ok s (snap th')) ->
+  (forall k l c, In (k, l, c) (uaf s') -> In (k, l, c) (uaf s) \/ (stale s = false -> c - l > 64)) ->
+  Inv2 s'.
+Proof.
+  intros s s' t th th' I1 I2 Hext Htime Hth Hthr Hc Hst Hfree Hlist Hstamp Hpc Hsnap Huaf.
+  destruct (inv2_store s s' t I1 I2 Hext Htime Hc Hst Hfree) as (S1 & S2 & S3 & S4 & S5).
+  constructor; auto.
+  - pose proof (i2_clock s I2). lia.
+  - intros k Hk. eapply sup_le_keep; eauto.
+  - intro Hs. eapply stamp_ok_later; [exact Hc|]. eapply stamp_ok_keep; eauto.
+  - intros t' th0 H0. rewrite Hthr, nth_error_set_nth in H0.
+    destruct (nth_error (threads s) t') as [y|] eqn:Ey; [|discriminate]. inversion H0; subst th0; clear H0.
+    destruct (Nat.eqb_spec t t') as [<-|Hne].
+    + destruct Hpc as [Hpc|Hpc]; [|assumption]. eapply pc2_ok_keep; eauto.
+    + eapply pc2_ok_keep; eauto. eapply (i2_pc s I2); eauto.
+  - intros t' th0 H0. rewrite Hthr, nth_error_set_nth in H0.
+    destruct (nth_error (threads s) t') as [y|] eqn:Ey; [|discriminate]. inversion H0; subst th0; clear H0.
+    destruct (Nat.eqb_spec t t') as [<-|Hne].
+    + eapply snap2_ok_keep; eauto.
+    + eapply snap2_ok_keep; eauto. eapply (i2_snap s I2); eauto.
+  - intros Hs k l c Hin. destruct (Huaf _ _ _ Hin) as [H|H]; [|auto]. eapply (i2_uaf s I2); eauto.
+Qed.
+
+(* steps that leave the retire head, `stale` and the uaf log alone *)
+Lemma inv2_local : forall s s' t th th',
+  Inv1 s -> Inv2 s -> tables_ext s s' t -> times_ext s s' t ->
+  nth_error (threads s) t = Some th -> threads s' = set_nth t th' (threads s) ->
+  clock s <= clock s' -> hword s' = hword s -> hnodes s' = hnodes s -> stale s' = stale s -> uaf s' = uaf s ->
+  (pc2_ok s (tpc th') \/ pc2_ok s' (tpc th')) -> snap2_ok s (snap th') -> Inv2 s'.
+Proof.
+  intros s s' t th th' I1 I2 Hext Htime Hth Hthr Hc Ew En Es Eu Hpc Hsnap.
+  apply (inv2_gen s s' t th th' I1 I2 Hext Htime Hth Hthr Hc); [| | | |exact Hpc|exact Hsnap|].
+  - congruence.
+  - intros _ k ti r H1 H2. rewrite En in H2. contradiction.
+  - intros k Hk. rewrite En in Hk. apply (i2_list s I2); assumption.
+  - intro Hs. rewrite Ew, En. apply (i2_stamp s I2). congruence.
+  - intros k l c H. left. congruence.
+Qed.
+
+Lemma prepare_uaf : forall s t th bt nt fresh e, is_freed (table s bt) = false -> uaf (prepare s t th bt nt fresh e) = uaf s.
+Proof. intros. unfold prepare. rewrite H. reflexivity. Qed.
+Lemma prepare_misc : forall s t th bt nt fresh e,
+  clock (prepare s t th bt nt fresh e) = clock s /\ hword (prepare s t th bt nt fresh e) = hword s /\
+  stale (prepare s t th bt nt fresh e) = stale s.
+Proof. intros. unfold prepare. destruct (is_freed (table s bt)); repeat split; reflexivity. Qed.
+
+Lemma stamp_at_unit : forall c, stamp_at c = current_unit c mod 2 ^ 16.
+Proof. reflexivity. Qed.
+
+Ltac loc2 I1 I2 Hext Htime Hth TH :=
+  apply (inv2_local _ _ _ _ TH I1 I2 Hext Htime Hth); [reflexivity|cbn; lia|reflexivity|reflexivity|reflexivity|reflexivity| | ].
+Ltac gen2 I1 I2 Hext Htime Hth TH :=
+  apply (inv2_gen _ _ _ _ TH I1 I2 Hext Htime Hth); [reflexivity|cbn; lia| | | | | | | ].
+
+Lemma inv2_step : forall s t th s', Inv1 s -> Inv2 s -> nth_error (threads s) t = Some th -> Step s t th s' -> Inv2 s'.
+Proof.
+  intros s t th s' I1 I2 Hth HS.
+  destruct (inv1_step s t th s' I1 Hth HS) as (I1' & _ & Hext & Htime).
+  pose proof (i2_pc s I2 _ _ Hth) as Hpc0. pose proof (i2_snap s I2 _ _ Hth) as Hsn0.
+  pose proof (i2_clock s I2) as Hclk.
+  destruct (i1_cur s I1) as (tc & Hc & Hcst & Hcsup & Hcfr).
+  assert (Hnf : is_freed (table s (cur s)) = false) by (rewrite (table_nth _ _ _ Hc); unfold is_freed; rewrite Hcfr; reflexivity).
+  destruct HS.
+  - loc2 I1 I2 Hext Htime Hth (finish_op th (complete s o (cur s))); [left; exact Logic.I|exact Hsn0].
+  - match goal with |- Inv2 (upd_thread _ _ ?x) => loc2 I1 I2 Hext Htime Hth x end; [left; exact Logic.I|exact Hsn0].
+  - match goal with |- Inv2 (upd_thread _ _ ?x) => loc2 I1 I2 Hext Htime Hth x end; [left; exact Logic.I|exact Hsn0].
+  - match goal with |- Inv2 (upd_thread _ _ ?x) => loc2 I1 I2 Hext Htime Hth x end; [left; exact Logic.I|].
+    cbn. split; [lia|]. exists tc. split; [assumption|]. intros r Hr. congruence.
+  - match goal with |- Inv2 (upd_thread _ _ ?x) => loc2 I1 I2 Hext Htime Hth x end; [left; exact Logic.I|exact Hsn0].
+  - (* snapshot read of a freed table *)
+    gen2 I1 I2 Hext Htime Hth (finish_op th RUaf).
+    + auto.
+    + intros _ k0 ti r A B. contradiction.
+    + apply (i2_list s I2).
+    + apply (i2_stamp s I2).
+    + left; exact Logic.I.
+    + exact Hsn0.
+    + intros k0 l c [E|Hin]; [|left; assumption]. inversion E; subst k0 l c. right. intro Hs.
+      rewrite H1 in Hsn0. cbn in Hsn0. destruct Hsn0 as (Hle & ti & Hk & Hr).
+      rewrite (table_nth _ _ _ Hk) in H2. unfold is_freed in H2. destruct (tfreed ti) as [f|] eqn:Ef; [|discriminate].
+      destruct (tsup ti) as [r|] eqn:Er.
+      * pose proof (i2_cool s I2 Hs k ti r f Hk Er Ef). pose proof (i2_freed s I2 k ti f Hk Ef). specialize (Hr r eq_refl). lia.
+      * exfalso. pose proof (i2_dead s I2 k ti f Hk Ef Er) as Hd.
+        destruct (i1_snap s I1 _ _ _ _ Hth H1) as (ti0 & Hk0 & Hp). rewrite Hk in Hk0. inversion Hk0; subst ti0.
+        unfold published in Hp. rewrite Hd in Hp. contradiction.
+  - match goal with |- Inv2 (upd_thread _ _ ?x) => loc2 I1 I2 Hext Htime Hth x end; [left; exact Logic.I|exact Hsn0].
+  - match goal with |- Inv2 (upd_thread _ _ ?x) => loc2 I1 I2 Hext Htime Hth x end; [left; exact Logic.I|exact Hsn0].
+  - (* gc: expired *)
+    match goal with |- Inv2 (upd_thread _ _ ?x) => loc2 I1 I2 Hext Htime Hth x end; [|exact Hsn0].
+    left. cbn. split; [lia|]. split; [lia|]. split; [apply (i2_list s I2)|]. intro Hs. split; [assumption|]. apply (i2_stamp s I2 Hs).
+  - (* time passes *)
+    match goal with |- Inv2 (upd_thread _ _ ?x) => loc2 I1 I2 Hext Htime Hth x end; [left; exact Logic.I|exact Hsn0].
+  - (* prepare *)
+    destruct (prepare_misc s t th (cur s) (length (tables s)) true e) as (E1 & E2 & E3).
+    apply (inv2_local s _ t th (goto th (SlowCas (cur s) (length (tables s)) (tsize (table s (cur s))) e)) I1 I2 Hext Htime Hth).
+    + apply prepare_threads.
+    + lia.
+    + assumption.
+    + apply prepare_hnodes.
+    + assumption.
+    + apply prepare_uaf; assumption.
+    + left. exact Logic.I.
+    + exact Hsn0.
+  - (* table CAS won *)
+    match goal with |- Inv2 (upd_thread _ _ ?x) => loc2 I1 I2 Hext Htime Hth x end; [|exact Hsn0].
+    right. subst bt. exists (supersede (table s (cur s)) t (clock s)), (clock s). repeat split; try (cbn; lia).
+    unfold T. cbn. rewrite !nth_error_set_nth. fold (T s (cur s)). rewrite Hc. rewrite (table_nth _ _ _ Hc).
+    rewrite Nat.eqb_refl. destruct (Nat.eqb_spec nt (cur s)) as [E|]; [|reflexivity].
+    exfalso. pose proof (i1_pc s I1 _ _ Hth) as P. rewrite H in P. cbn in P.
+    destruct P as (tb & tn & spec & Hb & Hn & Hpb & Hst & _). subst nt. rewrite Hc in Hn. inversion Hn; subst. congruence.
+  - (* table CAS lost, done *)
+    match goal with |- Inv2 (upd_thread _ _ ?x) => loc2 I1 I2 Hext Htime Hth x end; [left; exact Logic.I|exact Hsn0].
+  - (* table CAS lost, retry *)
+    destruct (prepare_misc s1 t th (cur s) nt false e) as (E1 & E2 & E3).
+    apply (inv2_local s _ t th (goto th (SlowCas (cur s) nt (tsize (table s (cur s))) e)) I1 I2 Hext Htime Hth).
+    + rewrite prepare_threads. reflexivity.
+    + rewrite E1. cbn. lia.
+    + rewrite E2. reflexivity.
+    + rewrite prepare_hnodes. reflexivity.
+    + rewrite E3. reflexivity.
+    + rewrite prepare_uaf by exact Hnf. reflexivity.
+    + left. exact Logic.I.
+    + exact Hsn0.
+  - (* retire: head and clock read *)
+    rewrite H in Hpc0. cbn in Hpc0.
+    assert (Hl : forall k, In k (hnodes s) -> sup_le s k (clock s)) by apply (i2_list s I2).
+    destruct (expire (hword s) (stamp_at c0)) eqn:Ee.
+    + loc2 I1 I2 Hext Htime Hth (goto th (RetStrong old nt (hword s) (hnodes s) neww c0 c0)); [|exact Hsn0].
+      left. subst c0 neww. cbn. split; [reflexivity|]. split; [lia|]. split; [lia|]. split; [lia|]. split; [assumption|]. split; [assumption|].
+      intro Hs. split; [assumption|]. apply (i2_stamp s I2 Hs).
+    + loc2 I1 I2 Hext Htime Hth (goto th (RetWeak old nt (hword s) (hnodes s) neww c0 c0)); [|exact Hsn0].
+      left. subst c0 neww. cbn. split; [reflexivity|]. split; [lia|]. split; [lia|]. split; [lia|]. split; assumption.
+  - (* retire: expired list replaced *)
+    rewrite H in Hpc0. cbn in Hpc0. destruct Hpc0 as (A & B & C & D & E & F & G).
+    match goal with |- Inv2 (upd_thread _ _ ?x) => gen2 I1 I2 Hext Htime Hth x end.
+    + auto.
+    + intros Hs k ti r Hin Hnot Hk Hr. destruct (G Hs) as (Ge & U0 & U1 & U2 & U3).
+      rewrite H1 in Hin. destruct (U3 _ Hin) as (ti0 & r0 & Hk0 & Hr0 & Hle). rewrite Hk in Hk0. inversion Hk0; subst ti0.
+      assert (r0 = r) by congruence. subst r0.
+      pose proof (cv_expire_sound hw c0 U0 U2 U1 Ge). pose proof (units_apart r c0 U0 Hle H2). lia.
+    + intros k [<-|[]]. destruct E as (ti & r & Hk & Hr & Hle). exists ti, r. repeat split; auto. lia.
+    + intros Hs. cbn. exists (current_unit c0). subst neww. rewrite ts_of_new_head. split; [apply stamp_at_unit|].
+      split; [split; [apply current_unit_nonneg; assumption|apply current_unit_mono; lia]|].
+      intros k [<-|[]]. destruct E as (ti & r & Hk & Hr & Hle). exists ti, r. repeat split; auto. apply current_unit_mono; assumption.
+    + left; exact Logic.I.
+    + exact Hsn0.
+    + intros k l c Hin. left. exact Hin.
+  - (* retire: strong CAS lost *)
+    rewrite H in Hpc0. cbn in Hpc0. destruct Hpc0 as (A & B & C & D & E & F & G).
+    match goal with |- Inv2 (upd_thread _ _ ?x) => loc2 I1 I2 Hext Htime Hth x end; [|exact Hsn0].
+    left. cbn. split; [assumption|]. split; [lia|]. split; [lia|]. split; [lia|]. split; [assumption|]. apply (i2_list s I2).
+  - (* retire: push won *)
+    rewrite H in Hpc0. cbn in Hpc0. destruct Hpc0 as (A & B & C & D & E & F). subst s1 s2.
+    match goal with |- Inv2 (upd_thread _ _ ?x) => gen2 I1 I2 Hext Htime Hth x end.
+    + cbn [stale upd_thread with_mem with_head]. intro Hs. apply orb_false_elim in Hs. tauto.
+    + cbn. intros _ k ti r Hin Hnot. exfalso. apply Hnot. right. congruence.
+    + cbn. intros k [<-|Hin].
+      * destruct E as (ti & r & Hk & Hr & Hle). exists ti, r. repeat split; auto. lia.
+      * destruct (F _ Hin) as (ti & r & Hk & Hr & Hle). exists ti, r. repeat split; auto. lia.
+    + cbn [stale hword hnodes upd_thread with_mem with_head]. intros Hs. apply orb_false_elim in Hs. destruct Hs as [_ Hs]. apply Z.ltb_ge in Hs.
+      exists (current_unit c0). subst neww. rewrite ts_of_new_head. split; [apply stamp_at_unit|].
+      split; [split; [apply current_unit_nonneg; assumption|apply current_unit_mono; lia]|].
+      intros k [<-|Hin].
+      * destruct E as (ti & r & Hk & Hr & Hle). exists ti, r. repeat split; auto. apply current_unit_mono; assumption.
+      * destruct (F _ Hin) as (ti & r & Hk & Hr & Hle). exists ti, r. repeat split; auto.
+        pose proof (current_unit_mono _ _ Hle). lia.
+    + left; exact Logic.I.
+    + exact Hsn0.
+    + intros k l c Hin. left. exact Hin.
+  - (* retire: push lost *)
+    rewrite H in Hpc0. cbn in Hpc0. destruct Hpc0 as (A & B & C & D & E & F).
+    match goal with |- Inv2 (upd_thread _ _ ?x) => loc2 I1 I2 Hext Htime Hth x end; [|exact Hsn0].
+    left. cbn. split; [assumption|]. split; [lia|]. split; [lia|]. split; [lia|]. split; [assumption|]. apply (i2_list s I2).
+  - (* gc won *)
+    rewrite H in Hpc0. cbn in Hpc0. destruct Hpc0 as (A & B & C & G).
+    match goal with |- Inv2 (upd_thread _ _ ?x) => gen2 I1 I2 Hext Htime Hth x end.
+    + auto.
+    + intros Hs k ti r Hin Hnot Hk Hr. destruct (G Hs) as (Ge & U0 & U1 & U2 & U3).
+      rewrite H1 in Hin. destruct (U3 _ Hin) as (ti0 & r0 & Hk0 & Hr0 & Hle). rewrite Hk in Hk0. inversion Hk0; subst ti0.
+      assert (r0 = r) by congruence. subst r0.
+      pose proof (cv_expire_sound hw c1 U0 U2 U1 Ge). pose proof (units_apart r c1 U0 Hle H2). lia.
+    + intros k [].
+    + intros Hs. cbn. exists 0. split; [reflexivity|]. split; [split; [lia|apply current_unit_nonneg; assumption]|]. intros k [].
+    + left; exact Logic.I.
+    + exact Hsn0.
+    + intros k l c Hin. left. exact Hin.
+  - match goal with |- Inv2 (upd_thread _ _ ?x) => loc2 I1 I2 Hext Htime Hth x end; [left; exact Logic.I|exact Hsn0].
+Qed.
+
+(* ======================================================================================== *)
+(* Reachable states, the statements                                                         *)
+(* ======================================================================================== *)
+Lemma cv_reach_inv : forall b t0 progs s, 0 <= t0 -> Reach b t0 progs s -> Inv1 s /\ Inv2 s.
+Proof.
+  intros b t0 progs s Ht HR. unfold Reach in HR.
+  apply (inv_reachable st step (fun s => Inv1 s /\ Inv2 s) (init b t0 progs)); auto.
+  - split; [apply inv1_init|apply inv2_init; assumption].
+  - intros s0 t s1 [I1 I2] Hs. destruct (step_Step _ _ _ Hs) as (th & Hth & HS).
+    split; [apply (inv1_step s0 t th s1 I1 Hth HS)|apply (inv2_step s0 t th s1 I1 I2 Hth HS)].
+Qed.
+Lemma cv_reach_inv1 : forall b t0 progs s, Reach b t0 progs s -> Inv1 s.
+Proof.
+  intros b t0 progs s HR. unfold Reach in HR.
+  apply (inv_reachable st step Inv1 (init b t0 progs)); auto.
+  - apply inv1_init.
+  - intros s0 t s1 I1 Hs. destruct (step_Step _ _ _ Hs) as (th & Hth & HS). apply (inv1_step s0 t th s1 I1 Hth HS).
+Qed.
+
+Lemma bits_step : forall s t th s', Step s t th s' -> bits s' = bits s.
+Proof. intros s t th s' HS. destruct HS; try reflexivity; rewrite prepare_bits; reflexivity. Qed.
+
+Lemma run_inv1 : forall sch s, Inv1 s ->
+  Inv1 (run st step s sch) /\ prefix (live s) (live (run st step s sch)) /\ bits (run st step s sch) = bits s.
+Proof.
+  induction sch as [|t sch IH]; intros s I1; cbn [run].
+  - split; [assumption|]. split; [apply prefix_refl|reflexivity].
+  - unfold step_or_stay. destruct (step s t) as [s1|] eqn:E; [|apply IH; assumption].
+    destruct (step_Step _ _ _ E) as (th & Hth & HS). destruct (inv1_step s t th s1 I1 Hth HS) as (I1' & Hp & _).
+    destruct (IH s1 I1') as (A & B & C). split; [assumption|]. split; [eapply prefix_trans; eauto|].
+    rewrite C. eapply bits_step; eauto.
+Qed.
+
+Lemma read_elem_prefix : forall s s' a b i e, bits s' = bits s -> prefix a b ->
+  read_elem s a i = Some e -> read_elem s' b i = Some e.
+Proof.
+  intros s s' a b i e Hb Hp H. unfold read_elem in *. rewrite Hb. destruct (i <? 0); [discriminate|].
+  destruct (nth_error a _) as [x|] eqn:E; [|discriminate]. rewrite (prefix_nth _ _ _ _ _ Hp E). assumption.
+Qed.
+
+(* stable addresses: once index i designates element e it does so in every later state *)
+Lemma cv_stable : forall b t0 progs s sch i e, Reach b t0 progs s ->
+  slot s i = Some e -> slot (run st step s sch) i = Some e.
+Proof.
+  intros b t0 progs s sch i e HR H. destruct (run_inv1 sch s (cv_reach_inv1 _ _ _ _ HR)) as (_ & Hp & Hb).
+  unfold slot in *. eapply read_elem_prefix; eauto.
+Qed.
+Lemma cv_tables_only_grow : forall b t0 progs s sch, Reach b t0 progs s -> prefix (live s) (live (run st step s sch)).
+Proof. intros. apply run_inv1. eapply cv_reach_inv1; eauto. Qed.
+
+(* one element per index: whatever published table (current, just installed, held in a snapshot, retired) an
+   index is read through, now or later, it yields the same element *)
+Lemma cv_same_element : forall b t0 progs s sch k1 k2 ti1 ti2 i e1 e2, Reach b t0 progs s ->
+  nth_error (tables s) k1 = Some ti1 -> published ti1 ->
+  nth_error (tables (run st step s sch)) k2 = Some ti2 -> published ti2 ->
+  read_elem s (tblocks ti1) i = Some e1 -> read_elem (run st step s sch) (tblocks ti2) i = Some e2 -> e1 = e2.
+Proof.
+  intros b t0 progs s sch k1 k2 ti1 ti2 i e1 e2 HR H1 P1 H2 P2 R1 R2.
+  pose proof (cv_reach_inv1 _ _ _ _ HR) as I1. destruct (run_inv1 sch s I1) as (I1' & Hp & Hb).
+  set (s' := run st step s sch) in *.
+  assert (A : read_elem s' (live s') i = Some e1).
+  { eapply read_elem_prefix; [exact Hb| |exact R1]. eapply prefix_trans; [|exact Hp]. eapply (i1_prefix s I1); eauto. }
+  assert (B : read_elem s' (live s') i = Some e2).
+  { eapply read_elem_prefix; [reflexivity| |exact R2]. eapply (i1_prefix s' I1'); eauto. }
+  congruence.
+Qed.
+
+(* the tables operations read through are published ones *)
+Lemma cv_reads_published : forall b t0 progs s t th, Reach b t0 progs s -> nth_error (threads s) t = Some th ->
+  (exists ti, nth_error (tables s) (cur s) = Some ti /\ published ti) /\
+  (forall k taken, snap th = Some (k, taken) -> exists ti, nth_error (tables s) k = Some ti /\ published ti) /\
+  (forall old nt hw hn w c0 hclk, tpc th = RetStrong old nt hw hn w c0 hclk \/ tpc th = RetWeak old nt hw hn w c0 hclk ->
+     exists ti, nth_error (tables s) nt = Some ti /\ published ti).
+Proof.
+  intros b t0 progs s t th HR Hth. pose proof (cv_reach_inv1 _ _ _ _ HR) as I1. split; [|split].
+  - destruct (i1_cur s I1) as (tc & Hc & Hst & _). exists tc. split; [assumption|apply published_cur; assumption].
+  - intros k taken Hs. eapply (i1_snap s I1); eauto.
+  - intros old nt hw hn w c0 hclk [E|E]; pose proof (i1_pc s I1 _ _ Hth) as P; rewrite E in P; cbn in P;
+      destruct P as (to & tn & _ & _ & Hn & Hp); exists tn; auto.
+Qed.
+
+(* the current table is never freed nor superseded while current *)
+Lemma cv_current_alive : forall b t0 progs s, Reach b t0 progs s ->
+  exists ti, nth_error (tables s) (cur s) = Some ti /\ tfreed ti = None /\ tsup ti = None.
+Proof.
+  intros b t0 progs s HR. destruct (i1_cur s (cv_reach_inv1 _ _ _ _ HR)) as (tc & Hc & _ & H1 & H2). exists tc. auto.
+Qed.
+
+(* cooling period: a superseded table is freed more than 64 s after the CAS that superseded it, unless some retire
+   pushed a stale stamp *)
+Lemma cv_cooling_partial : forall b t0 progs s, 0 <= t0 -> Reach b t0 progs s -> stale s = false ->
+  forall k ti r f, nth_error (tables s) k = Some ti -> tsup ti = Some r -> tfreed ti = Some f -> f - r > 64.
+Proof. intros b t0 progs s Ht HR Hs. destruct (cv_reach_inv _ _ _ _ Ht HR) as [_ I2]. apply (i2_cool s I2 Hs). Qed.
+
+(* a snapshot is found freed only more than 64 s after it was taken (same proviso) *)
+Lemma cv_snapshot_partial : forall b t0 progs s, 0 <= t0 -> Reach b t0 progs s -> stale s = false ->
+  forall k taken c, In (k, taken, c) (uaf s) -> c - taken > 64.
+Proof. intros b t0 progs s Ht HR Hs. destruct (cv_reach_inv _ _ _ _ Ht HR) as [_ I2]. apply (i2_uaf s I2 Hs). Qed.
+
+(* superseded / freed times are in the past; unpublished tables are never marked superseded *)
+Lemma cv_times_sane : forall b t0 progs s, 0 <= t0 -> Reach b t0 progs s ->
+  forall k ti, nth_error (tables s) k = Some ti ->
+    (forall r, tsup ti = Some r -> r <= clock s) /\ (forall f, tfreed ti = Some f -> f <= clock s).
+Proof.
+  intros b t0 progs s Ht HR k ti Hk. destruct (cv_reach_inv _ _ _ _ Ht HR) as [_ I2]. split.
+  - intros r Hr. eapply (i2_sup s I2); eauto.
+  - intros f Hf. eapply (i2_freed s I2); eauto.
+Qed.
+
+(* F4: the unconditional cooling statement is false of the model (and of the code): a retire that read the clock,
+   lost its CAS to a retire 128 s later and then pushed its old stamp lets gc() free a table in the same second in
+   which it was superseded, while a snapshot of it taken in that same second is still in use *)
+Definition f4_progs : list (list op) := [[OEnsure 0]; [OAdv 128; OSnap; OEnsure 1; OGc; OSnapGet 0]].
+Definition f4_sched : list nat := [0; 0; 0; 1; 1; 1; 1; 1; 1; 0; 0; 1; 1; 1]%nat.
+Lemma cv_cooling_refuted :
+  exists s, Reach 0 1000000 f4_progs s /\ all_done s = true /\
+    (exists k ti r f, nth_error (tables s) k = Some ti /\ tsup ti = Some r /\ tfreed ti = Some f /\ f - r = 0) /\
+    (exists k taken c, In (k, taken, c) (uaf s) /\ c - taken = 0) /\ stale s = true.
+Proof.
+  set (s := run st step (init 0 1000000 f4_progs) f4_sched).
+  exists s. split; [exists f4_sched; reflexivity|].
+  split; [vm_compute; reflexivity|]. split; [|split].
+  - exists 1%nat, (nth 1 (tables s) empty_table), 1000128, 1000128. vm_compute.
+    split; [reflexivity|]. split; [reflexivity|]. split; reflexivity.
+  - exists 1%nat, 1000128, 1000128. split; [vm_compute; left; reflexivity|reflexivity].
+  - vm_compute. reflexivity.
+Qed.
+
+(* a stall of 2 s across a unit boundary is enough to lose the guarantee: cooling of 63 s *)
+Definition f4b_progs : list (list op) := [[OAdv 63; OEnsure 0]; [OAdv 2; OSnap; OEnsure 1; OAdv 63; OGc; OSnapGet 0]].
+Definition f4b_sched : list nat := [0; 0; 0; 0; 1; 1; 1; 1; 1; 1; 0; 0; 1; 1; 1; 1]%nat.
+Lemma cv_cooling_refuted_short_stall :
+  exists s, Reach 0 1000000 f4b_progs s /\ all_done s = true /\
+    (exists k ti r f, nth_error (tables s) k = Some ti /\ tsup ti = Some r /\ tfreed ti = Some f /\ f - r = 63).
+Proof.
+  set (s := run st step (init 0 1000000 f4b_progs) f4b_sched).
+  exists s. split; [exists f4b_sched; reflexivity|].
+  split; [vm_compute; reflexivity|].
+  exists 1%nat, (nth 1 (tables s) empty_table), 1000065, 1000128. vm_compute.
+  split; [reflexivity|]. split; [reflexivity|]. split; reflexivity.
+Qed.
+
+(* constructed exactly once: no block's constructor count ever differs from 1 *)
+Lemma ctor_step : forall s t th s', Step s t th s' -> Forall (fun c => c = 1%nat) (bctor s) -> Forall (fun c => c = 1%nat) (bctor s').
+Proof.
+  intros s t th s' HS H. destruct HS; try exact H.
+  - unfold prepare. destruct (is_freed _); cbn; apply Forall_app; (split; [exact H|]); apply Forall_forall; intros x Hx; apply repeat_spec in Hx; assumption.
+  - unfold prepare. destruct (is_freed _); cbn; apply Forall_app; (split; [exact H|]); apply Forall_forall; intros x Hx; apply repeat_spec in Hx; assumption.
+Qed.
+Lemma cv_constructed_once : forall b t0 progs s, Reach b t0 progs s -> Forall (fun c => c = 1%nat) (bctor s).
+Proof.
+  intros b t0 progs s HR. unfold Reach in HR.
+  apply (inv_reachable st step (fun s => Forall (fun c => c = 1%nat) (bctor s)) (init b t0 progs)); auto.
+  - constructor.
+  - intros s0 t s1 H Hs. destruct (step_Step _ _ _ Hs) as (th & Hth & HS). eapply ctor_step; eauto.
+Qed.
+
+(* non-vacuity: a reachable state with a retired-and-freed table that respected the cooling period *)
+Definition ok_progs : list (list op) := [[OEnsure 0; OSnap; OEnsure 1; OAdv 128; OGc; OSnapGet 0]].
+Lemma cv_cooling_example :
+  exists s, Reach 0 1000000 ok_progs s /\ stale s = false /\
+    (exists k ti r f, nth_error (tables s) k = Some ti /\ tsup ti = Some r /\ tfreed ti = Some f /\ f - r = 128) /\
+    uaf s <> [].
+Proof.
+  set (s := run st step (init 0 1000000 ok_progs) (repeat 0%nat 20)).
+  exists s. split; [exists (repeat 0%nat 20); reflexivity|].
+  split; [vm_compute; reflexivity|]. split.
+  - exists 1%nat, (nth 1 (tables s) empty_table), 1000000, 1000128. vm_compute.
+    split; [reflexivity|]. split; [reflexivity|]. split; reflexivity.
+  - vm_compute. discriminate.
+Qed.
+
+(* ======================================================================================== *)
+(* Invariant 3: every element handed out is the element its index designates                *)
+(* ======================================================================================== *)
+Definition good (s : st) (o : op) (r : res) : Prop :=
+  match r with RElem (Some e) => exists i, op_index o = Some i /\ slot s i = Some e | _ => True end.
+
+Record Inv3 (s : st) : Prop := {
+  i3_res : forall t th j o r, nth_error (threads s) t = Some th -> nth_error (prog th) j = Some o ->
+      nth_error (results th) j = Some r -> good s o r;
+  i3_len : forall t th, nth_error (threads s) t = Some th -> length (results th) = opi th
+}.
+
+Lemma good_mono : forall s s' o r, bits s' = bits s -> prefix (live s) (live s') -> good s o r -> good s' o r.
+Proof.
+  intros s s' o r Hb Hp H. destruct r as [[e|]| | | |]; cbn in *; auto. destruct H as (i & Hi & Hs). exists i. split; [assumption|].
+  unfold slot in *. eapply read_elem_prefix; eauto.
+Qed.
+
+(* reading index i through a published table of s' gives the element slot s' i *)
+Lemma good_read : forall s' s2 k ti o i, Inv1 s' -> T s' k = Some ti -> published ti -> bits s2 = bits s' ->
+  op_index o = Some i -> good s' o (RElem (read_elem s2 (tblocks ti) i)).
+Proof.
+  intros s' s2 k ti o i I1 Hk Hp Hb Ho. cbn. destruct (read_elem s2 (tblocks ti) i) as [e|] eqn:E; [|exact Logic.I].
+  exists i. split; [assumption|]. unfold slot. eapply (read_elem_prefix s2 s'); eauto. eapply (i1_prefix s' I1); eauto.
+Qed.
+Lemma good_complete : forall s' s2 k ti o, Inv1 s' -> T s' k = Some ti -> published ti -> bits s2 = bits s' ->
+  table s2 k = ti -> good s' o (complete s2 o k).
+Proof.
+  intros s' s2 k ti o I1 Hk Hp Hb Ht. unfold complete. rewrite Ht. destruct o; try exact Logic.I.
+  eapply good_read; eauto; reflexivity.
+Qed.
+
+Lemma inv3_frame : forall s s' t th th', Inv3 s -> bits s' = bits s -> prefix (live s) (live s') ->
+  nth_error (threads s) t = Some th -> threads s' = set_nth t th' (threads s) -> prog th' = prog th ->
+  ((results th' = results th /\ opi th' = opi th) \/
+   (exists r, results th' = results th ++ [r] /\ opi th' = S (opi th) /\ forall o, cur_op th = Some o -> good s' o r)) ->
+  Inv3 s'.
+Proof.
+  intros s s' t th th' I3 Hb Hp Hth Hthr Hprog Hres. constructor.
+  - intros t' th0 j o r H0 Ho Hr. rewrite Hthr, nth_error_set_nth in H0.
+    destruct (nth_error (threads s) t') as [y|] eqn:Ey; [|discriminate]. inversion H0; subst th0; clear H0.
+    destruct (Nat.eqb_spec t t') as [<-|Hne].
+    + rewrite Ey in Hth. inversion Hth; subst y. rewrite Hprog in Ho.
+      destruct Hres as [[E1 E2]|(r0 & E1 & E2 & Hg)].
+      * rewrite E1 in Hr. eapply good_mono; eauto. eapply (i3_res s I3); eauto.
+      * rewrite E1 in Hr. pose proof (i3_len s I3 _ _ Ey) as Hl.
+        destruct (Nat.lt_ge_cases j (length (results th))) as [Hlt|Hge].
+        -- rewrite nth_error_app1 in Hr by assumption. eapply good_mono; eauto. eapply (i3_res s I3); eauto.
+        -- rewrite nth_error_app2 in Hr by assumption. destruct (j - length (results th))%nat eqn:Ej; [|destruct n; discriminate].
+           cbn in Hr. inversion Hr; subst r0. apply Hg. unfold cur_op. assert (j = opi th) by lia. congruence.
+    + eapply good_mono; eauto. eapply (i3_res s I3); eauto.
+  - intros t' th0 H0. rewrite Hthr, nth_error_set_nth in H0.
+    destruct (nth_error (threads s) t') as [y|] eqn:Ey; [|discriminate]. inversion H0; subst th0; clear H0.
+    destruct (Nat.eqb_spec t t') as [<-|Hne]; [|eapply (i3_len s I3); eauto].
+    rewrite Ey in Hth. inversion Hth; subst y. pose proof (i3_len s I3 _ _ Ey) as Hl.
+    destruct Hres as [[E1 E2]|(r0 & E1 & E2 & Hg)]; rewrite E1, E2; [assumption|]. rewrite app_length. cbn. lia.
+Qed.
+
+Lemma inv3_init : forall b t0 progs, Inv3 (init b t0 progs).
+Proof.
+  intros. constructor; cbn.
+  - intros t th j o r H. apply nth_error_In in H. apply in_map_iff in H. destruct H as (p & <- & _). cbn. destruct j; discriminate.
+  - intros t th H. apply nth_error_In in H. apply in_map_iff in H. destruct H as (p & <- & _). reflexivity.
+Qed.
+
+Lemma good_if : forall s o (b : bool) x, good s o x -> good s o (if b then RUaf else x).
+Proof. intros s o [|] x H; [exact Logic.I|exact H]. Qed.
+
+Lemma the_op_cur : forall th o, cur_op th = Some o -> the_op th = o.
+Proof. intros th o H. unfold the_op. rewrite H. reflexivity. Qed.
+
+Lemma inv3_step : forall s t th s', Inv1 s -> Inv3 s -> nth_error (threads s) t = Some th -> Step s t th s' -> Inv3 s'.
+Proof.
+  intros s t th s' I1 I3 Hth HS.
+  destruct (inv1_step s t th s' I1 Hth HS) as (I1' & Hp & Hext & Htime).
+  pose proof (bits_step _ _ _ _ HS) as Hb.
+  destruct (i1_cur s' I1') as (tc' & Hc' & Hcst' & _).
+  pose proof (published_cur _ Hcst') as Hpc'.
+  destruct HS.
+  - (* fast path *)
+    eapply inv3_frame with (th' := finish_op th (complete s o (cur s))); eauto; try reflexivity.
+    right. eexists. split; [reflexivity|]. split; [reflexivity|]. intros o' Ho'. assert (o' = o) by congruence. subst o'.
+    apply (good_complete _ s (cur s) tc' _ I1' Hc' Hpc'); [reflexivity|exact (table_nth _ _ _ Hc')].
+  - eapply inv3_frame with (th' := finish_op th _); eauto; try reflexivity.
+    right. eexists. split; [reflexivity|]. split; [reflexivity|]. intros o' Ho'. assert (o' = OIndex i) by congruence. subst o'.
+    assert (Et : table s (cur s) = tc') by exact (table_nth _ _ _ Hc').
+    apply good_if. rewrite Et. apply (good_read _ s (cur s) tc' _ _ I1' Hc' Hpc'); reflexivity.
+  - eapply inv3_frame with (th' := finish_op th _); eauto; try reflexivity.
+    right. eexists. split; [reflexivity|]. split; [reflexivity|]. intros; exact Logic.I.
+  - eapply inv3_frame with (th' := finish_op (set_snap th _) RUnit); eauto; try reflexivity.
+    right. eexists. split; [reflexivity|]. split; [reflexivity|]. intros; exact Logic.I.
+  - eapply inv3_frame with (th' := finish_op th _); eauto; try reflexivity.
+    right. eexists. split; [reflexivity|]. split; [reflexivity|]. intros; exact Logic.I.
+  - eapply inv3_frame with (th' := finish_op th RUaf); eauto; try reflexivity.
+    right. eexists. split; [reflexivity|]. split; [reflexivity|]. intros; exact Logic.I.
+  - (* snapshot read *)
+    eapply inv3_frame with (th' := finish_op th _); eauto; try reflexivity.
+    right. eexists. split; [reflexivity|]. split; [reflexivity|]. intros o' Ho'. assert (o' = OSnapGet i) by congruence. subst o'.
+    destruct (i1_snap s I1 _ _ _ _ Hth H1) as (ti & Hk & Hpub). rewrite (table_nth _ _ _ Hk).
+    destruct (Hext _ _ Hk) as (ti' & Hk' & Hpub' & _). destruct (Hpub' Hpub) as [Hp' Hbl']. rewrite <- Hbl'.
+    apply (good_read _ s k ti' _ _ I1' Hk' Hp'); reflexivity.
+  - eapply inv3_frame with (th' := finish_op th RUnit); eauto; try reflexivity.
+    right. eexists. split; [reflexivity|]. split; [reflexivity|]. intros; exact Logic.I.
+  - eapply inv3_frame with (th' := goto th _); eauto; try reflexivity; try (left; split; reflexivity).
+  - eapply inv3_frame with (th' := finish_op th RUnit); eauto; try reflexivity.
+    right. eexists. split; [reflexivity|]. split; [reflexivity|]. intros; exact Logic.I.
+  - eapply inv3_frame with (th' := goto th _); eauto; try reflexivity; try apply prepare_threads; try (left; split; reflexivity).
+  - eapply inv3_frame with (th' := goto th _); eauto; try reflexivity; try (left; split; reflexivity).
+  - (* CAS lost, done *)
+    eapply inv3_frame with (th' := finish_op th _); eauto; try reflexivity.
+    right. eexists. split; [reflexivity|]. split; [reflexivity|]. intros o' Ho'. rewrite (the_op_cur _ _ Ho').
+    apply (good_complete _ s2 (cur s) tc' _ I1' Hc' Hpc'); [reflexivity|exact (table_nth _ _ _ Hc')].
+  - eapply inv3_frame with (th' := goto th _); eauto; try reflexivity; try (rewrite prepare_threads; reflexivity); try (left; split; reflexivity).
+  - eapply inv3_frame with (th' := goto th _); eauto; try reflexivity; try (left; split; reflexivity).
+  - (* retire done (strong) *)
+    pose proof (i1_pc s I1 _ _ Hth) as P. rewrite H in P. cbn in P. destruct P as (to & tn & _ & _ & Hn & Hpn).
+    destruct (Hext _ _ Hn) as (tn' & Hn' & Hpub & _). destruct (Hpub Hpn) as [Hpn' _].
+    eapply inv3_frame with (th' := finish_op th _); eauto; try reflexivity.
+    right. eexists. split; [reflexivity|]. split; [reflexivity|]. intros o' Ho'. rewrite (the_op_cur _ _ Ho').
+    apply (good_complete _ s2 nt tn' _ I1' Hn' Hpn'); [reflexivity|exact (table_nth _ _ _ Hn')].
+  - eapply inv3_frame with (th' := goto th _); eauto; try reflexivity; try (left; split; reflexivity).
+  - (* retire done (push) *)
+    pose proof (i1_pc s I1 _ _ Hth) as P. rewrite H in P. cbn in P. destruct P as (to & tn & _ & _ & Hn & Hpn).
+    destruct (Hext _ _ Hn) as (tn' & Hn' & Hpub & _). destruct (Hpub Hpn) as [Hpn' _].
+    eapply inv3_frame with (th' := finish_op th _); eauto; try reflexivity.
+    right. eexists. split; [reflexivity|]. split; [reflexivity|]. intros o' Ho'. rewrite (the_op_cur _ _ Ho').
+    apply (good_complete _ s2 nt tn' _ I1' Hn' Hpn'); [reflexivity|exact (table_nth _ _ _ Hn')].
+  - eapply inv3_frame with (th' := goto th _); eauto; try reflexivity; try (left; split; reflexivity).
+  - eapply inv3_frame with (th' := finish_op th RUnit); eauto; try reflexivity.
+    right. eexists. split; [reflexivity|]. split; [reflexivity|]. intros; exact Logic.I.
+  - eapply inv3_frame with (th' := finish_op th RUnit); eauto; try reflexivity.
+    right. eexists. split; [reflexivity|]. split; [reflexivity|]. intros; exact Logic.I.
+Qed.
+
+Lemma cv_reach_inv3 : forall b t0 progs s, Reach b t0 progs s -> Inv1 s /\ Inv3 s.
+Proof.
+  intros b t0 progs s HR. unfold Reach in HR.
+  apply (inv_reachable st step (fun s => Inv1 s /\ Inv3 s) (init b t0 progs)); auto.
+  - split; [apply inv1_init|apply inv3_init].
+  - intros s0 t s1 [I1 I3] Hs. destruct (step_Step _ _ _ Hs) as (th & Hth & HS).
+    split; [apply (inv1_step s0 t th s1 I1 Hth HS)|apply (inv3_step s0 t th s1 I1 I3 Hth HS)].
+Qed.
+
+(* every element returned by ensure(i) / operator[](i) / snapshot[i], by any thread at any time, is the element the
+   current table designates for i; hence two requests for the same index got the same element *)
+Lemma cv_results_same_element : forall b t0 progs s t1 t2 th1 th2 j1 j2 o1 o2 i e1 e2, Reach b t0 progs s ->
+  nth_error (threads s) t1 = Some th1 -> nth_error (threads s) t2 = Some th2 ->
+  nth_error (prog th1) j1 = Some o1 -> nth_error (prog th2) j2 = Some o2 ->
+  op_index o1 = Some i -> op_index o2 = Some i ->
+  nth_error (results th1) j1 = Some (RElem (Some e1)) -> nth_error (results th2) j2 = Some (RElem (Some e2)) ->
+  e1 = e2 /\ slot s i = Some e1.
+Proof.
+  intros b t0 progs s t1 t2 th1 th2 j1 j2 o1 o2 i e1 e2 HR H1 H2 P1 P2 O1 O2 R1 R2.
+  destruct (cv_reach_inv3 _ _ _ _ HR) as [_ I3].
+  pose proof (i3_res s I3 _ _ _ _ _ H1 P1 R1) as G1. pose proof (i3_res s I3 _ _ _ _ _ H2 P2 R2) as G2.
+  cbn in G1, G2. destruct G1 as (i1 & A1 & B1). destruct G2 as (i2 & A2 & B2).
+  assert (i1 = i) by congruence. assert (i2 = i) by congruence. subst. split; congruence.
 Qed.
